@@ -1,7 +1,2442 @@
-//! C17: not implemented yet.
+//! C17: joins return the SQL-defined rows under any memory budget.
+//!
+//! Level (a), SQL: generated 2..4-way joins of every kind over small tables with duplicate and NULL
+//! join keys; each query is executed under `PRAGMA join_memory_budget = N` for four budgets and
+//! compared as a bag with the library's nested-loop reference evaluator (`bag`), and across budgets
+//! (`budget_invariant`). EXPLAIN is recorded so the evidence says which join algorithm ran.
+//! Level (b), component: the same generated inputs as `MaterializedRowSource`s into the Volcano join
+//! executors reachable through the public API (NestedLoopJoin, GraceHashJoin in memory and spilling,
+//! StreamingHashJoin), `bag` against the model and `algorithm_invariant` across executors.
+use crate::report::{catch, Ctx};
+use crate::rng::{fnv, Rng};
+use crate::sqlm::cmp::bag_diff;
+use crate::sqlm::db::{is_panic, panic_tag, Db, Scratch};
+use crate::sqlm::expr::{bin, BinOp, MErr, E};
+use crate::sqlm::query::{run_model, FromItem, Item, Join, JoinKind, MTable, Query, Select};
+use crate::sqlm::val::{row_key, rows_json, Row, V};
 use crate::Args;
+use serde_json::{json, Value as J};
+use std::collections::{BTreeMap, BTreeSet};
+use std::path::{Path, PathBuf};
 
-pub fn run(_a: &Args) -> i32 {
-    println!("INCONCLUSIVE property=C17 reason=check not implemented yet");
-    2
+const BUDGETS: [usize; 4] = [1024, 4096, 65536, 10485760];
+
+// ---------------------------------------------------------------------------------------------
+// tables
+// ---------------------------------------------------------------------------------------------
+
+#[derive(Clone, Copy, Debug, PartialEq, Eq, Hash)]
+enum CK {
+    Pk,
+    IntKey,
+    TextKey,
+    Payload,
+    Date,
+    Bool,
+    Ts,
+}
+
+impl CK {
+    fn sql_type(&self) -> &'static str {
+        match self {
+            CK::Pk => "BIGINT PRIMARY KEY",
+            CK::IntKey | CK::Payload => "BIGINT",
+            CK::TextKey => "TEXT",
+            CK::Date => "DATE",
+            CK::Bool => "BOOLEAN",
+            CK::Ts => "TIMESTAMP",
+        }
+    }
+    /// comparison class: columns of the same class may be compared with each other
+    fn class(&self) -> &'static str {
+        match self {
+            CK::Pk | CK::IntKey | CK::Payload => "int",
+            CK::TextKey => "text",
+            CK::Date => "date",
+            CK::Bool => "bool",
+            CK::Ts => "ts",
+        }
+    }
+    fn tag(&self) -> &'static str {
+        match self {
+            CK::Pk => "pk",
+            CK::IntKey | CK::Payload => "int",
+            CK::TextKey => "text",
+            CK::Date => "date",
+            CK::Bool => "bool",
+            CK::Ts => "ts",
+        }
+    }
+}
+
+#[derive(Clone, Debug)]
+struct Col {
+    name: String,
+    kind: CK,
+}
+
+#[derive(Clone, Debug)]
+struct Tab {
+    name: String,
+    cols: Vec<Col>,
+    rows: Vec<Row>,
+    /// columns carrying a secondary index
+    indexes: Vec<String>,
+}
+
+impl Tab {
+    fn col(&self, name: &str) -> Option<(usize, &Col)> {
+        self.cols.iter().enumerate().find(|(_, c)| c.name == name)
+    }
+    fn create_sql(&self) -> String {
+        format!("CREATE TABLE {} ({})", self.name, self.cols.iter().map(|c| format!("{} {}", c.name, c.kind.sql_type())).collect::<Vec<_>>().join(", "))
+    }
+    fn insert_sql(&self) -> Vec<String> {
+        self.rows.chunks(6).map(|ch| format!("INSERT INTO {} VALUES {}", self.name, ch.iter().map(|r| format!("({})", r.iter().map(|v| v.sql()).collect::<Vec<_>>().join(", "))).collect::<Vec<_>>().join(", "))).collect()
+    }
+    fn index_sql(&self) -> Vec<String> {
+        self.indexes.iter().map(|c| format!("CREATE INDEX ix_{}_{} ON {} ({})", self.name, c, self.name, c)).collect()
+    }
+    fn setup_sql(&self) -> Vec<String> {
+        let mut v = vec![self.create_sql()];
+        v.extend(self.insert_sql());
+        v.extend(self.index_sql());
+        v
+    }
+    fn mtable(&self) -> MTable {
+        MTable { name: self.name.clone(), cols: self.cols.iter().map(|c| c.name.clone()).collect(), rows: self.rows.clone() }
+    }
+}
+
+#[derive(Clone, Debug)]
+struct Spec {
+    tabs: Vec<Tab>,
+    shared_id: bool,
+    special: Option<CK>,
+}
+
+impl Spec {
+    fn model_tables(&self) -> BTreeMap<String, MTable> {
+        self.tabs.iter().map(|t| (t.name.clone(), t.mtable())).collect()
+    }
+    fn setup_sql(&self) -> Vec<String> {
+        self.tabs.iter().flat_map(|t| t.setup_sql()).collect()
+    }
+    fn data_hash(&self) -> u64 {
+        let mut s = String::new();
+        for t in &self.tabs {
+            s.push_str(&t.name);
+            for r in &t.rows {
+                s.push_str(&row_key(r, false));
+                s.push('\n');
+            }
+        }
+        fnv(s.as_bytes())
+    }
+}
+
+const TEXT_KEYS: &[&str] = &["a", "ab", "abc", "b", "ba", "c"];
+const DATES: &[&str] = &["2024-01-05", "2024-01-06", "2024-02-29", "1999-12-31"];
+const STAMPS: &[&str] = &["2024-01-05 10:00:00", "2024-01-06 11:30:00", "1999-12-31 23:59:59", "2024-02-29 00:00:01"];
+
+fn gen_cell(rng: &mut Rng, kind: CK, dom: i64, null_pm: u64) -> V {
+    if rng.below(1000) < null_pm {
+        return V::Null;
+    }
+    match kind {
+        CK::IntKey => V::Int(rng.range(0, dom - 1)),
+        CK::TextKey => V::Text(TEXT_KEYS[rng.below((dom as u64).min(TEXT_KEYS.len() as u64)) as usize].to_string()),
+        CK::Date => V::Text(rng.pick(DATES).to_string()),
+        CK::Ts => V::Text(rng.pick(STAMPS).to_string()),
+        CK::Bool => V::Bool(rng.chance(1, 2)),
+        CK::Pk | CK::Payload => unreachable!(),
+    }
+}
+
+/// `special`: optional extra key column of type DATE / BOOLEAN / TIMESTAMP (own stratum)
+fn gen_spec(rng: &mut Rng, ntabs: usize, special: Option<CK>, allow_index: bool) -> Spec {
+    let shared_id = rng.chance(1, 5);
+    let max_rows = match ntabs {
+        2 => 25,
+        3 => 12,
+        _ => 7,
+    };
+    let dom = *rng.pick(&[2i64, 3, 4, 6]);
+    let mut tabs = vec![];
+    for ti in 0..ntabs {
+        let sfx = (b'a' + ti as u8) as char;
+        let name = format!("t{}", sfx);
+        let mut cols = vec![];
+        if rng.chance(7, 10) {
+            cols.push(Col { name: if shared_id { "id".to_string() } else { format!("id{}", sfx) }, kind: CK::Pk });
+        }
+        cols.push(Col { name: format!("k{}", sfx), kind: CK::IntKey });
+        cols.push(Col { name: format!("s{}", sfx), kind: CK::TextKey });
+        cols.push(Col { name: format!("v{}", sfx), kind: CK::Payload });
+        if let Some(sp) = special {
+            cols.push(Col { name: format!("x{}", sfx), kind: sp });
+        }
+        let null_pm = *rng.pick(&[0u64, 150, 150, 300]);
+        let nrows = if rng.chance(1, 30) { 0 } else { rng.usize(3, max_rows) };
+        let mut rows = vec![];
+        // primary keys are not always dense / ascending in insertion order
+        let mut ids: Vec<i64> = (1..=nrows as i64).collect();
+        if rng.chance(1, 3) {
+            rng.shuffle(&mut ids);
+        }
+        for i in 0..nrows {
+            let mut r = vec![];
+            for c in &cols {
+                r.push(match c.kind {
+                    CK::Pk => V::Int(ids[i]),
+                    CK::Payload => V::Int((ti as i64 + 1) * 100 + i as i64),
+                    k => gen_cell(rng, k, dom, null_pm),
+                });
+            }
+            rows.push(r);
+        }
+        let mut indexes = vec![];
+        if allow_index {
+            if rng.chance(3, 10) {
+                indexes.push(format!("k{}", sfx));
+            }
+            if rng.chance(2, 10) {
+                indexes.push(format!("s{}", sfx));
+            }
+            if special.is_some() && rng.chance(7, 10) {
+                indexes.push(format!("x{}", sfx));
+            }
+        }
+        tabs.push(Tab { name, cols, rows, indexes });
+    }
+    Spec { tabs, shared_id, special }
+}
+
+// ---------------------------------------------------------------------------------------------
+// join queries
+// ---------------------------------------------------------------------------------------------
+
+#[derive(Clone, Debug)]
+struct TRef {
+    tab: usize,
+    alias: Option<String>,
+}
+
+#[derive(Clone, Debug, PartialEq)]
+struct CRef {
+    t: usize,
+    col: String,
+}
+
+#[derive(Clone, Debug)]
+enum Atom {
+    /// earlier-table column = new-table column; `bool` = rendered reversed
+    Equi(CRef, CRef, bool),
+    Cmp2(CRef, BinOp, CRef),
+    CmpLit(CRef, BinOp, V),
+    IsNull(CRef, bool),
+    Or(Box<Atom>, Box<Atom>),
+}
+
+impl Atom {
+    fn refs(&self, out: &mut Vec<CRef>) {
+        match self {
+            Atom::Equi(a, b, _) | Atom::Cmp2(a, _, b) => {
+                out.push(a.clone());
+                out.push(b.clone());
+            }
+            Atom::CmpLit(a, _, _) | Atom::IsNull(a, _) => out.push(a.clone()),
+            Atom::Or(a, b) => {
+                a.refs(out);
+                b.refs(out);
+            }
+        }
+    }
+    fn uses(&self, t: usize) -> bool {
+        let mut r = vec![];
+        self.refs(&mut r);
+        r.iter().any(|c| c.t == t)
+    }
+    fn renumber(&mut self, removed: usize) {
+        let f = |c: &mut CRef| {
+            if c.t > removed {
+                c.t -= 1
+            }
+        };
+        match self {
+            Atom::Equi(a, b, _) | Atom::Cmp2(a, _, b) => {
+                f(a);
+                f(b);
+            }
+            Atom::CmpLit(a, _, _) | Atom::IsNull(a, _) => f(a),
+            Atom::Or(a, b) => {
+                a.renumber(removed);
+                b.renumber(removed);
+            }
+        }
+    }
+}
+
+#[derive(Clone, Debug)]
+struct JStep {
+    kind: JoinKind,
+    on: Vec<Atom>,
+}
+
+#[derive(Clone, Debug)]
+struct JQ {
+    trefs: Vec<TRef>,
+    /// true: `FROM a, b, c WHERE ...`; false: `FROM a <JOIN> b ON .. <JOIN> c ON ..`
+    comma: bool,
+    /// one step per tref after the first (ignored when `comma`)
+    steps: Vec<JStep>,
+    where_: Vec<Atom>,
+    /// None = `SELECT *`
+    items: Option<Vec<CRef>>,
+    qualify: bool,
+}
+
+fn kind_name(k: JoinKind) -> &'static str {
+    match k {
+        JoinKind::Inner => "inner",
+        JoinKind::Left => "left",
+        JoinKind::Right => "right",
+        JoinKind::Full => "full",
+        JoinKind::Cross => "cross",
+    }
+}
+
+impl JQ {
+    fn tname(&self, spec: &Spec, t: usize) -> String {
+        let r = &self.trefs[t];
+        r.alias.clone().unwrap_or_else(|| spec.tabs[r.tab].name.clone())
+    }
+    fn cref_e(&self, spec: &Spec, c: &CRef) -> E {
+        if self.qualify {
+            E::Col { tbl: Some(self.tname(spec, c.t)), name: c.col.clone() }
+        } else {
+            E::Col { tbl: None, name: c.col.clone() }
+        }
+    }
+    fn atom_e(&self, spec: &Spec, a: &Atom) -> E {
+        match a {
+            Atom::Equi(l, r, rev) => {
+                if *rev {
+                    bin(BinOp::Eq, self.cref_e(spec, r), self.cref_e(spec, l))
+                } else {
+                    bin(BinOp::Eq, self.cref_e(spec, l), self.cref_e(spec, r))
+                }
+            }
+            Atom::Cmp2(l, op, r) => bin(*op, self.cref_e(spec, l), self.cref_e(spec, r)),
+            Atom::CmpLit(c, op, v) => bin(*op, self.cref_e(spec, c), E::Lit(v.clone())),
+            Atom::IsNull(c, neg) => E::IsNull(Box::new(self.cref_e(spec, c)), *neg),
+            Atom::Or(x, y) => bin(BinOp::Or, self.atom_e(spec, x), self.atom_e(spec, y)),
+        }
+    }
+    fn conj(&self, spec: &Spec, atoms: &[Atom]) -> Option<E> {
+        let mut it = atoms.iter().map(|a| self.atom_e(spec, a));
+        let first = it.next()?;
+        Some(it.fold(first, |acc, e| bin(BinOp::And, acc, e)))
+    }
+    fn from_item(&self, spec: &Spec, t: usize) -> FromItem {
+        FromItem::Table { name: spec.tabs[self.trefs[t].tab].name.clone(), alias: self.trefs[t].alias.clone() }
+    }
+    fn to_query(&self, spec: &Spec) -> Query {
+        let items = match &self.items {
+            None => vec![Item::Star],
+            Some(cs) => cs.iter().map(|c| Item::Expr { e: self.cref_e(spec, c), alias: None }).collect(),
+        };
+        let mut s = Select { items, ..Default::default() };
+        if self.comma {
+            s.from = (0..self.trefs.len()).map(|t| self.from_item(spec, t)).collect();
+        } else {
+            s.from = vec![self.from_item(spec, 0)];
+            for (i, st) in self.steps.iter().enumerate() {
+                let on = if st.kind == JoinKind::Cross { None } else { self.conj(spec, &st.on) };
+                s.joins.push(Join { kind: st.kind, item: self.from_item(spec, i + 1), on });
+            }
+        }
+        s.where_ = self.conj(spec, &self.where_);
+        Query::Select(s)
+    }
+    fn sql(&self, spec: &Spec) -> String {
+        self.to_query(spec).sql()
+    }
+    fn col_kind(&self, spec: &Spec, c: &CRef) -> CK {
+        spec.tabs[self.trefs[c.t].tab].col(&c.col).map(|x| x.1.kind).unwrap_or(CK::Payload)
+    }
+    fn indexed(&self, spec: &Spec, c: &CRef) -> Option<&'static str> {
+        let tab = &spec.tabs[self.trefs[c.t].tab];
+        if self.col_kind(spec, c) == CK::Pk {
+            Some("pk")
+        } else if tab.indexes.iter().any(|i| *i == c.col) {
+            Some("sec")
+        } else {
+            None
+        }
+    }
+    fn kinds_tag(&self) -> String {
+        if self.comma {
+            format!("comma{}", self.trefs.len())
+        } else {
+            self.steps.iter().map(|s| kind_name(s.kind)).collect::<Vec<_>>().join(">")
+        }
+    }
+    fn atom_tags(&self, spec: &Spec, a: &Atom, ctx: &str, new_t: Option<usize>, out: &mut BTreeSet<String>) {
+        let side = |c: &CRef| -> &'static str {
+            match new_t {
+                Some(n) => {
+                    if c.t == n {
+                        "new"
+                    } else {
+                        "old"
+                    }
+                }
+                None => {
+                    if c.t == 0 {
+                        "first"
+                    } else if c.t + 1 == self.trefs.len() {
+                        "last"
+                    } else {
+                        "mid"
+                    }
+                }
+            }
+        };
+        match a {
+            Atom::Equi(l, r, _) => {
+                // the key type is only kept in the idx: tag (it matters for index lookups, not for hashing/comparing)
+                out.insert(format!("{}:equi", ctx));
+                // the planner looks for an index on the column of the table being joined
+                let newc = match new_t {
+                    Some(n) if l.t == n => l,
+                    _ => r,
+                };
+                if let Some(i) = self.indexed(spec, newc) {
+                    out.insert(format!("idx:{}({})", i, self.col_kind(spec, newc).tag()));
+                }
+            }
+            Atom::Cmp2(..) => {
+                out.insert(format!("{}:cond_both", ctx));
+            }
+            Atom::CmpLit(c, _, _) | Atom::IsNull(c, _) => {
+                out.insert(format!("{}:cond_{}", ctx, side(c)));
+            }
+            Atom::Or(x, y) => {
+                out.insert(format!("{}:or", ctx));
+                self.atom_tags(spec, x, ctx, new_t, out);
+                self.atom_tags(spec, y, ctx, new_t, out);
+            }
+        }
+    }
+    fn features(&self, spec: &Spec) -> BTreeSet<String> {
+        let mut f = BTreeSet::new();
+        if !self.comma {
+            for (i, st) in self.steps.iter().enumerate() {
+                for a in &st.on {
+                    self.atom_tags(spec, a, "on", Some(i + 1), &mut f);
+                }
+            }
+        }
+        for a in &self.where_ {
+            self.atom_tags(spec, a, "where", None, &mut f);
+        }
+        if !self.qualify {
+            f.insert("unqualified".into());
+        } else if self.trefs.iter().any(|t| t.alias.is_some()) {
+            f.insert("alias".into());
+        }
+        if self.items.is_none() {
+            f.insert("star".into());
+        }
+        let mut seen = BTreeSet::new();
+        if self.trefs.iter().any(|t| !seen.insert(t.tab)) {
+            f.insert("selfjoin".into());
+        }
+        // the same column name selected from two tables
+        let names: Vec<String> = match &self.items {
+            Some(cs) => cs.iter().map(|c| c.col.clone()).collect(),
+            None => self.trefs.iter().flat_map(|t| spec.tabs[t.tab].cols.iter().map(|c| c.name.clone())).collect(),
+        };
+        let mut ns = BTreeSet::new();
+        if names.iter().any(|n| !ns.insert(n.clone())) {
+            f.insert("same_colname_twice".into());
+        }
+        f
+    }
+    /// remove table reference `t` together with everything that mentions it
+    fn without_tref(&self, t: usize) -> Option<JQ> {
+        if self.trefs.len() <= 2 {
+            return None;
+        }
+        let mut q = self.clone();
+        q.trefs.remove(t);
+        if !q.comma {
+            if t == 0 {
+                q.steps.remove(0);
+            } else {
+                q.steps.remove(t - 1);
+            }
+            for st in q.steps.iter_mut() {
+                st.on.retain(|a| !a.uses(t));
+                for a in st.on.iter_mut() {
+                    a.renumber(t);
+                }
+            }
+            // a step whose ON list became empty has no condition left: that changes its meaning, refuse
+            if q.steps.iter().any(|s| s.kind != JoinKind::Cross && s.on.is_empty()) {
+                return None;
+            }
+            // every ON must still only mention tables joined so far
+            for (i, st) in q.steps.iter().enumerate() {
+                let mut r = vec![];
+                for a in &st.on {
+                    a.refs(&mut r);
+                }
+                if r.iter().any(|c| c.t > i + 1) {
+                    return None;
+                }
+            }
+        }
+        q.where_.retain(|a| !a.uses(t));
+        for a in q.where_.iter_mut() {
+            a.renumber(t);
+        }
+        if let Some(items) = q.items.as_mut() {
+            items.retain(|c| c.t != t);
+            for c in items.iter_mut() {
+                if c.t > t {
+                    c.t -= 1;
+                }
+            }
+            if items.is_empty() {
+                return None;
+            }
+        }
+        Some(q)
+    }
+    /// single-step simplifications, most aggressive first
+    fn shrink_candidates(&self, spec: &Spec) -> Vec<JQ> {
+        let mut out = vec![];
+        for t in (0..self.trefs.len()).rev() {
+            if let Some(q) = self.without_tref(t) {
+                out.push(q);
+            }
+        }
+        for i in 0..self.where_.len() {
+            let mut q = self.clone();
+            q.where_.remove(i);
+            // a comma join without any condition is a cross product: still a valid (simpler) query
+            out.push(q);
+        }
+        if !self.comma {
+            for (si, st) in self.steps.iter().enumerate() {
+                if st.on.len() > 1 {
+                    for ai in 0..st.on.len() {
+                        let mut q = self.clone();
+                        q.steps[si].on.remove(ai);
+                        out.push(q);
+                    }
+                }
+                for (ai, a) in st.on.iter().enumerate() {
+                    if let Atom::Or(x, y) = a {
+                        for z in [x, y] {
+                            let mut q = self.clone();
+                            q.steps[si].on[ai] = (**z).clone();
+                            out.push(q);
+                        }
+                    }
+                }
+                let simpler: &[JoinKind] = match st.kind {
+                    JoinKind::Full => &[JoinKind::Inner, JoinKind::Left, JoinKind::Right],
+                    JoinKind::Left | JoinKind::Right => &[JoinKind::Inner],
+                    _ => &[],
+                };
+                for k in simpler {
+                    let mut q = self.clone();
+                    q.steps[si].kind = *k;
+                    out.push(q);
+                }
+            }
+        }
+        for (ai, a) in self.where_.iter().enumerate() {
+            if let Atom::Or(x, y) = a {
+                for z in [x, y] {
+                    let mut q = self.clone();
+                    q.where_[ai] = (**z).clone();
+                    out.push(q);
+                }
+            }
+        }
+        if !self.qualify {
+            let mut q = self.clone();
+            q.qualify = true;
+            out.push(q);
+        }
+        if self.comma {
+            // FROM a, b WHERE c  ==  a CROSS JOIN b WHERE c
+            let mut q = self.clone();
+            q.comma = false;
+            q.steps = (1..self.trefs.len()).map(|_| JStep { kind: JoinKind::Cross, on: vec![] }).collect();
+            out.push(q);
+        } else {
+            for (si, st) in self.steps.iter().enumerate() {
+                if st.kind == JoinKind::Inner {
+                    let mut q = self.clone();
+                    q.steps[si] = JStep { kind: JoinKind::Cross, on: vec![] };
+                    out.push(q);
+                }
+            }
+        }
+        match &self.items {
+            None => {
+                let mut q = self.clone();
+                let mut items = vec![];
+                for (t, r) in self.trefs.iter().enumerate() {
+                    for c in &spec.tabs[r.tab].cols {
+                        items.push(CRef { t, col: c.name.clone() });
+                    }
+                }
+                // only when the explicit list is unambiguous
+                if self.qualify {
+                    q.items = Some(items);
+                    out.push(q);
+                }
+            }
+            Some(items) if items.len() > 1 => {
+                for i in 0..items.len() {
+                    let mut q = self.clone();
+                    q.items.as_mut().unwrap().remove(i);
+                    out.push(q);
+                }
+            }
+            _ => {}
+        }
+        // drop aliases (not possible for self joins)
+        let mut seen = BTreeSet::new();
+        let selfjoin = self.trefs.iter().any(|t| !seen.insert(t.tab));
+        if !selfjoin && self.qualify && self.trefs.iter().any(|t| t.alias.is_some()) {
+            let mut q = self.clone();
+            for t in q.trefs.iter_mut() {
+                t.alias = None;
+            }
+            out.push(q);
+        }
+        out
+    }
+    /// strictly decreasing measure for the shrinker (so it terminates)
+    fn rank(&self) -> usize {
+        let atoms: usize = self.steps.iter().map(|s| s.on.len()).sum::<usize>() + self.where_.len();
+        let ors: usize = {
+            fn n(a: &Atom) -> usize {
+                match a {
+                    Atom::Or(x, y) => 1 + n(x) + n(y),
+                    _ => 0,
+                }
+            }
+            self.steps.iter().flat_map(|s| s.on.iter()).chain(self.where_.iter()).map(n).sum()
+        };
+        let kinds: usize = self
+            .steps
+            .iter()
+            .map(|s| match s.kind {
+                JoinKind::Cross => 0,
+                JoinKind::Inner => 1,
+                JoinKind::Left | JoinKind::Right => 2,
+                JoinKind::Full => 3,
+            })
+            .sum();
+        self.trefs.len() * 1000 + atoms * 40 + ors * 20 + kinds * 4 + self.items.as_ref().map(|i| i.len()).unwrap_or(30) * 2 + self.trefs.iter().filter(|t| t.alias.is_some()).count() + if self.qualify { 0 } else { 3 } + if self.comma { 2 } else { 0 }
+    }
+}
+
+fn cols_of_class<'a>(spec: &'a Spec, q: &JQ, t: usize, class: &str) -> Vec<&'a Col> {
+    spec.tabs[q.trefs[t].tab].cols.iter().filter(|c| c.kind.class() == class).collect()
+}
+
+fn gen_lit_atom(rng: &mut Rng, spec: &Spec, q: &JQ, t: usize) -> Atom {
+    let tab = &spec.tabs[q.trefs[t].tab];
+    let c = rng.pick(&tab.cols);
+    let cr = CRef { t, col: c.name.clone() };
+    if rng.chance(1, 4) {
+        return Atom::IsNull(cr, rng.chance(1, 2));
+    }
+    match c.kind {
+        CK::IntKey => Atom::CmpLit(cr, *rng.pick(&[BinOp::Eq, BinOp::Ne, BinOp::Lt, BinOp::Ge]), V::Int(rng.range(0, 3))),
+        CK::Pk => Atom::CmpLit(cr, *rng.pick(&[BinOp::Le, BinOp::Gt, BinOp::Ne]), V::Int(rng.range(1, 6))),
+        CK::Payload => {
+            let base = c.name.as_bytes().last().map(|b| (*b - b'a') as i64 + 1).unwrap_or(1) * 100;
+            Atom::CmpLit(cr, *rng.pick(&[BinOp::Lt, BinOp::Ge, BinOp::Ne, BinOp::Gt]), V::Int(base + rng.range(0, 8)))
+        }
+        CK::TextKey => Atom::CmpLit(cr, *rng.pick(&[BinOp::Eq, BinOp::Ne, BinOp::Lt, BinOp::Ge]), V::Text(rng.pick(TEXT_KEYS).to_string())),
+        // literals against DATE/TIMESTAMP/BOOLEAN columns are other properties' business
+        CK::Date | CK::Ts | CK::Bool => Atom::IsNull(cr, rng.chance(1, 2)),
+    }
+}
+
+fn gen_equi(rng: &mut Rng, spec: &Spec, q: &JQ, new_t: usize, prefer_special: bool) -> Option<Atom> {
+    let old_t = rng.usize(0, new_t - 1);
+    let class = if prefer_special && spec.special.is_some() && rng.chance(4, 5) {
+        spec.special.unwrap().class()
+    } else {
+        *rng.pick(&["int", "int", "int", "text", "text"])
+    };
+    let pick = |rng: &mut Rng, t: usize| -> Option<String> {
+        let cs = cols_of_class(spec, q, t, class);
+        if cs.is_empty() {
+            return None;
+        }
+        if class == "int" {
+            // mostly the key column, sometimes the primary key (FK -> PK join), rarely the payload
+            let r = rng.below(10);
+            let want = if r < 6 { CK::IntKey } else if r < 9 { CK::Pk } else { CK::Payload };
+            if let Some(c) = cs.iter().find(|c| c.kind == want) {
+                return Some(c.name.clone());
+            }
+            return cs.iter().find(|c| c.kind == CK::IntKey).map(|c| c.name.clone());
+        }
+        Some(rng.pick(&cs).name.clone())
+    };
+    let a = pick(rng, old_t)?;
+    let b = pick(rng, new_t)?;
+    Some(Atom::Equi(CRef { t: old_t, col: a }, CRef { t: new_t, col: b }, rng.chance(1, 3)))
+}
+
+fn gen_cmp2(rng: &mut Rng, spec: &Spec, q: &JQ, t1: usize, t2: usize) -> Option<Atom> {
+    let a = cols_of_class(spec, q, t1, "int");
+    let b = cols_of_class(spec, q, t2, "int");
+    if a.is_empty() || b.is_empty() {
+        return None;
+    }
+    // same kind on both sides keeps the comparison meaningful (key vs key, payload vs payload shifted)
+    let ka: Vec<&&Col> = a.iter().filter(|c| c.kind == CK::IntKey).collect();
+    let kb: Vec<&&Col> = b.iter().filter(|c| c.kind == CK::IntKey).collect();
+    let op = *rng.pick(&[BinOp::Lt, BinOp::Le, BinOp::Gt, BinOp::Ne, BinOp::Ge]);
+    Some(Atom::Cmp2(CRef { t: t1, col: ka[0].name.clone() }, op, CRef { t: t2, col: kb[0].name.clone() }))
+}
+
+fn gen_query(rng: &mut Rng, spec: &Spec) -> JQ {
+    let ntabs = spec.tabs.len();
+    let n = rng.usize(2, ntabs.min(4));
+    let mut order: Vec<usize> = (0..ntabs).collect();
+    rng.shuffle(&mut order);
+    let mut trefs: Vec<TRef> = order[..n].iter().map(|t| TRef { tab: *t, alias: None }).collect();
+    let selfjoin = rng.chance(1, 14);
+    if selfjoin {
+        let i = rng.usize(1, n - 1);
+        trefs[i].tab = trefs[0].tab;
+    }
+    let alias_style = rng.below(10);
+    for (i, t) in trefs.iter_mut().enumerate() {
+        let a = match alias_style {
+            0..=5 => true,
+            6..=7 => false,
+            _ => i % 2 == 0,
+        };
+        if a || selfjoin {
+            t.alias = Some(format!("x{}", i));
+        }
+    }
+    let unique_names = !spec.shared_id && !selfjoin;
+    let qualify = !(unique_names && rng.chance(1, 10));
+    let comma = rng.chance(1, 5);
+    let mut q = JQ { trefs, comma, steps: vec![], where_: vec![], items: None, qualify };
+    if comma {
+        for t in 1..n {
+            if rng.chance(17, 20) {
+                if let Some(a) = gen_equi(rng, spec, &q, t, true) {
+                    q.where_.push(a);
+                }
+            }
+        }
+    } else {
+        for t in 1..n {
+            let kind = *rng.pick(&[JoinKind::Inner, JoinKind::Inner, JoinKind::Inner, JoinKind::Left, JoinKind::Left, JoinKind::Left, JoinKind::Right, JoinKind::Right, JoinKind::Full, JoinKind::Full, JoinKind::Cross]);
+            let mut on = vec![];
+            if kind != JoinKind::Cross {
+                let r = rng.below(100);
+                let primary = if r < 80 {
+                    gen_equi(rng, spec, &q, t, true)
+                } else if r < 92 {
+                    let o = rng.usize(0, t - 1);
+                    gen_cmp2(rng, spec, &q, o, t)
+                } else {
+                    let x = gen_equi(rng, spec, &q, t, false);
+                    let y = if rng.chance(1, 2) {
+                        gen_equi(rng, spec, &q, t, false)
+                    } else {
+                        let o = rng.usize(0, t - 1);
+                        gen_cmp2(rng, spec, &q, o, t)
+                    };
+                    match (x, y) {
+                        (Some(x), Some(y)) => Some(Atom::Or(Box::new(x), Box::new(y))),
+                        (x, _) => x,
+                    }
+                };
+                on.push(primary.unwrap_or_else(|| Atom::Equi(CRef { t: 0, col: spec.tabs[q.trefs[0].tab].cols.iter().find(|c| c.kind == CK::IntKey).unwrap().name.clone() }, CRef { t, col: spec.tabs[q.trefs[t].tab].cols.iter().find(|c| c.kind == CK::IntKey).unwrap().name.clone() }, false)));
+                let extra = match rng.below(20) {
+                    0..=10 => 0,
+                    11..=17 => 1,
+                    _ => 2,
+                };
+                for _ in 0..extra {
+                    let a = match rng.below(5) {
+                        0 => {
+                            let o = rng.usize(0, t - 1);
+                            gen_cmp2(rng, spec, &q, o, t)
+                        }
+                        1 | 2 => Some(gen_lit_atom(rng, spec, &q, t)),
+                        3 => {
+                            let o = rng.usize(0, t - 1);
+                            Some(gen_lit_atom(rng, spec, &q, o))
+                        }
+                        _ => gen_equi(rng, spec, &q, t, false),
+                    };
+                    if let Some(a) = a {
+                        on.push(a);
+                    }
+                }
+            }
+            q.steps.push(JStep { kind, on });
+        }
+    }
+    let nwhere = match rng.below(20) {
+        0..=9 => 0,
+        10..=16 => 1,
+        _ => 2,
+    };
+    for _ in 0..nwhere {
+        let t = rng.usize(0, n - 1);
+        if rng.chance(1, 5) {
+            let u = (t + 1 + rng.usize(0, n - 2)) % n;
+            if let Some(a) = gen_cmp2(rng, spec, &q, t.min(u), t.max(u)) {
+                q.where_.push(a);
+                continue;
+            }
+        }
+        let a = gen_lit_atom(rng, spec, &q, t);
+        q.where_.push(a);
+    }
+    if !rng.chance(1, 25) {
+        let mut items = vec![];
+        for t in 0..n {
+            let tab = &spec.tabs[q.trefs[t].tab];
+            if rng.chance(4, 5) {
+                items.push(CRef { t, col: tab.cols.iter().find(|c| c.kind == CK::Payload).unwrap().name.clone() });
+            }
+            let extra = rng.usize(0, 2);
+            for _ in 0..extra {
+                let c = rng.pick(&tab.cols);
+                let cr = CRef { t, col: c.name.clone() };
+                if !items.contains(&cr) {
+                    items.push(cr);
+                }
+            }
+        }
+        if items.is_empty() {
+            items.push(CRef { t: 0, col: spec.tabs[q.trefs[0].tab].cols[0].name.clone() });
+        }
+        if rng.chance(3, 10) {
+            rng.shuffle(&mut items);
+        }
+        q.items = Some(items);
+    }
+    q
+}
+
+// ---------------------------------------------------------------------------------------------
+// running on TurDB
+// ---------------------------------------------------------------------------------------------
+
+fn civil_from_days(z: i64) -> (i64, i64, i64) {
+    let z = z + 719468;
+    let era = if z >= 0 { z } else { z - 146096 } / 146097;
+    let doe = z - era * 146097;
+    let yoe = (doe - doe / 1460 + doe / 36524 - doe / 146096) / 365;
+    let y = yoe + era * 400;
+    let doy = doe - (365 * yoe + yoe / 4 - yoe / 100);
+    let mp = (5 * doy + 2) / 153;
+    let d = doy - (153 * mp + 2) / 5 + 1;
+    let m = if mp < 10 { mp + 3 } else { mp - 9 };
+    (if m <= 2 { y + 1 } else { y }, m, d)
+}
+
+/// DATE / TIMESTAMP come back as OwnedValue::Date(days) / Timestamp(micros): render them like the literals
+fn norm_cell(v: &V) -> V {
+    if let V::Other(s) = v {
+        if let Some(n) = s.strip_prefix("Date(").and_then(|x| x.strip_suffix(')')).and_then(|x| x.parse::<i64>().ok()) {
+            let (y, m, d) = civil_from_days(n);
+            return V::Text(format!("{:04}-{:02}-{:02}", y, m, d));
+        }
+        if let Some(n) = s.strip_prefix("Timestamp(").and_then(|x| x.strip_suffix(')')).and_then(|x| x.parse::<i64>().ok()) {
+            let secs = n.div_euclid(1_000_000);
+            let (y, m, d) = civil_from_days(secs.div_euclid(86400));
+            let r = secs.rem_euclid(86400);
+            return V::Text(format!("{:04}-{:02}-{:02} {:02}:{:02}:{:02}", y, m, d, r / 3600, (r / 60) % 60, r % 60));
+        }
+    }
+    v.clone()
+}
+
+fn norm_rows(rows: Vec<Row>) -> Vec<Row> {
+    rows.into_iter().map(|r| r.iter().map(norm_cell).collect()).collect()
+}
+
+fn err_class(e: &str) -> String {
+    e.split(|c: char| !c.is_ascii_alphabetic()).filter(|w| !w.is_empty()).take(6).collect::<Vec<_>>().join("_").to_lowercase()
+}
+
+fn build_db(scratch: &Scratch, spec: &Spec, tag: &str) -> Result<Db, String> {
+    let mut db = Db::create(&scratch.dir(tag))?;
+    // durability is irrelevant here and the default (FULL) makes every insert an fsync
+    db.exec("PRAGMA synchronous = OFF").map_err(|e| format!("pragma synchronous: {}", e))?;
+    for s in spec.setup_sql() {
+        db.exec(&s).map_err(|e| format!("setup `{}`: {}", s, e))?;
+    }
+    Ok(db)
+}
+
+fn run_under(db: &mut Db, sql: &str, budget: usize) -> Result<Vec<Row>, String> {
+    db.exec(&format!("PRAGMA join_memory_budget = {}", budget)).map_err(|e| format!("pragma: {}", e))?;
+    db.query(sql).map(norm_rows)
+}
+
+/// outcome of one query that did not hold
+#[derive(Clone, Debug)]
+struct Fail {
+    /// sub-assertion
+    assertion: String,
+    /// extra cause (error class / panic site)
+    cause: String,
+    detail: J,
+    /// the rows TurDB returned (when it returned rows, identically under every budget)
+    got: Option<Vec<Row>>,
+}
+
+fn bag_equal(a: &[Row], b: &[Row]) -> bool {
+    bag_diff(a, b).is_none()
+}
+
+/// run under the given budgets and judge against the model rows
+fn judge(db: &mut Db, sql: &str, want: &[Row], width: usize, budgets: &[usize]) -> Option<Fail> {
+    let res: Vec<Result<Vec<Row>, String>> = budgets.iter().map(|b| run_under(db, sql, *b)).collect();
+    // budget_invariant: same outcome class and same bag under every budget
+    let class = |r: &Result<Vec<Row>, String>| -> String {
+        match r {
+            Ok(_) => "ok".into(),
+            Err(e) if is_panic(e) => format!("panic/{}", panic_tag(e)),
+            Err(e) => format!("error/{}", err_class(e)),
+        }
+    };
+    let c0 = class(&res[0]);
+    let mut invariant = res.iter().all(|r| class(r) == c0);
+    if invariant {
+        if let Ok(r0) = &res[0] {
+            invariant = res.iter().all(|r| bag_equal(r.as_ref().unwrap(), r0));
+        }
+    }
+    if !invariant {
+        let per: Vec<J> = budgets
+            .iter()
+            .zip(res.iter())
+            .map(|(b, r)| match r {
+                Ok(rows) => json!({"budget": b, "rows": rows.len(), "equals_model": bag_equal(rows, want), "sample": rows_json(rows, 6)}),
+                Err(e) => json!({"budget": b, "error": e}),
+            })
+            .collect();
+        return Some(Fail { assertion: "budget_invariant".into(), cause: String::new(), detail: json!({"sql": sql, "per_budget": per}), got: None });
+    }
+    match &res[0] {
+        Err(e) if is_panic(e) => Some(Fail { assertion: "no_panic".into(), cause: panic_tag(e), detail: json!({"sql": sql, "panic": e}), got: None }),
+        Err(e) => Some(Fail { assertion: "no_error".into(), cause: err_class(e), detail: json!({"sql": sql, "error": e, "model_rows": want.len()}), got: None }),
+        Ok(rows) => {
+            if let Some(r) = rows.first() {
+                if r.len() != width {
+                    return Some(Fail { assertion: "width".into(), cause: String::new(), detail: json!({"sql": sql, "got_width": r.len(), "want_width": width, "got_rows": rows.len(), "want_rows": want.len()}), got: Some(rows.clone()) });
+                }
+            }
+            bag_diff(rows, want).map(|d| Fail { assertion: "bag".into(), cause: String::new(), detail: json!({"sql": sql, "diff": d, "got": rows_json(rows, 10), "want": rows_json(want, 10)}), got: Some(rows.clone()) })
+        }
+    }
+}
+
+fn model_of(q: &JQ, spec: &Spec) -> Result<(Vec<Row>, usize), MErr> {
+    let m = run_model(&q.to_query(spec), &spec.model_tables())?;
+    Ok((m.rows, m.cols.len()))
+}
+
+/// does `q` on `db`/`spec` fail with the same sub-assertion (+cause)?
+fn still_fails(db: &mut Db, q: &JQ, spec: &Spec, f0: &Fail, budgets: &[usize]) -> Option<Fail> {
+    let (want, width) = model_of(q, spec).ok()?;
+    let f = judge(db, &q.sql(spec), &want, width, budgets)?;
+    if f.assertion == f0.assertion && f.cause == f0.cause {
+        Some(f)
+    } else {
+        None
+    }
+}
+
+fn plan_algos(plan: &str) -> Vec<&'static str> {
+    let mut v = vec![];
+    // "IndexNestedLoopJoin" contains "NestedLoopJoin": count it apart
+    let inl = plan.matches("IndexNestedLoopJoin").count();
+    let nl = plan.matches("NestedLoopJoin").count() - inl;
+    for _ in 0..inl {
+        v.push("IndexNestedLoopJoin");
+    }
+    for _ in 0..nl {
+        v.push("NestedLoopJoin");
+    }
+    for a in ["GraceHashJoin", "StreamingHashJoin", "HashSemiJoin", "HashAntiJoin"] {
+        for _ in 0..plan.matches(a).count() {
+            v.push(a);
+        }
+    }
+    v
+}
+
+/// table names in the order the plan scans them ("TableScan on <t>" / "on root.<t> using index")
+fn plan_scan_order(plan: &str) -> Vec<String> {
+    let mut v = vec![];
+    for line in plan.lines() {
+        let l = line.trim();
+        if let Some(rest) = l.strip_prefix("-> TableScan on ") {
+            v.push(rest.split_whitespace().next().unwrap_or("").to_string());
+        } else if l.starts_with("-> IndexScan") || l.starts_with("-> SecondaryIndexScan") {
+            if let Some(i) = l.find(" on ") {
+                v.push(l[i + 4..].split_whitespace().next().unwrap_or("").trim_start_matches("root.").to_string());
+            }
+        }
+    }
+    v
+}
+
+// ---------------------------------------------------------------------------------------------
+// emulations of defects established on the unchanged tree: each predicts the exact (wrong) output.
+// A failing two-table query whose result equals the model under the smallest set of emulations is
+// reported under the signature(s) of exactly those defects; anything else keeps a feature signature.
+// ---------------------------------------------------------------------------------------------
+
+#[derive(Clone, Copy, Debug, PartialEq, Eq, PartialOrd, Ord)]
+enum Emu {
+    /// three tables: the inner (first) join is a StreamingHashJoin / IndexNestedLoopJoin, which the hand-written
+    /// join executor in database.rs does not know how to run as an input: the input is empty
+    NestedStreamingOrIndexJoinYieldsNoRows,
+    /// three tables: a nested NestedLoopJoin / GraceHashJoin input is computed by execute_nested_join_recursive /
+    /// execute_hash_join_recursive, which ignore the join type (always inner; Grace: equality keys only)
+    NestedJoinRunsAsInner,
+    /// three tables: filters pushed below the top join onto the nested join (or its scans) are skipped
+    NestedJoinInputFiltersIgnored,
+    /// join_reordering.rs rebuilds the join tree and keeps only conditions whose qualified column
+    /// references touch both sides: every ON conjunct is lost when an input is a pushed-down Filter, and
+    /// one-sided / IS NULL / unqualified conjuncts are lost always
+    ReorderDropsConditions,
+    /// predicate_pushdown.rs picks the side from binary-operator column references only: an IS [NOT] NULL
+    /// conjunct on the other table travels with the predicate and is evaluated without its column
+    PushdownMisroutesIsNull,
+    /// hash join paths (GraceHashJoin / StreamingHashJoin plans) take only the equality keys of ON
+    HashJoinIgnoresNonKeyOn,
+    /// index nested loop join: lookup key for DATE / BOOLEAN / TIMESTAMP never matches the stored index key
+    InljSpecialKeyNeverMatches,
+    /// index nested loop join executes RIGHT as INNER
+    InljRightAsInner,
+    /// index nested loop join never applies the WHERE filter (above it or pushed into the outer scan)
+    InljIgnoresWhere,
+    /// outer joins: WHERE is evaluated while matching and never on the NULL-padded rows (acts like part of ON)
+    OuterJoinWhereActsAsOn,
+    /// RIGHT/FULL: the rows of unmatched right-side rows take their output columns by bare column name, first hit
+    /// wins: a right-side column whose name also exists on the left side comes out NULL
+    UnmatchedRightRowsResolveColumnsByBareName,
+    /// three tables, RIGHT/FULL on top of a nested join that produced no rows: the width of the left side is taken
+    /// from its first row (0 when empty), so the unmatched right rows are read at the wrong column offsets
+    RightJoinOverEmptyNestedInputMisalignsColumns,
+}
+
+impl Emu {
+    fn name(&self) -> &'static str {
+        match self {
+            Emu::NestedStreamingOrIndexJoinYieldsNoRows => "nested_streaming_hash_or_index_join_input_yields_no_rows",
+            Emu::NestedJoinRunsAsInner => "nested_join_input_runs_as_inner_join",
+            Emu::NestedJoinInputFiltersIgnored => "nested_join_input_filters_ignored",
+            Emu::ReorderDropsConditions => "join_reordering_drops_join_conditions",
+            Emu::PushdownMisroutesIsNull => "predicate_pushdown_misroutes_is_null_conjunct",
+            Emu::HashJoinIgnoresNonKeyOn => "hash_join_ignores_non_key_on_conjuncts",
+            Emu::InljSpecialKeyNeverMatches => "index_nested_loop_join_date_bool_timestamp_key_never_matches",
+            Emu::InljRightAsInner => "index_nested_loop_join_runs_right_join_as_inner",
+            Emu::InljIgnoresWhere => "index_nested_loop_join_ignores_where",
+            Emu::OuterJoinWhereActsAsOn => "outer_join_where_not_applied_to_null_padded_rows",
+            Emu::UnmatchedRightRowsResolveColumnsByBareName => "unmatched_right_rows_resolve_columns_by_bare_name",
+            Emu::RightJoinOverEmptyNestedInputMisalignsColumns => "right_join_over_empty_nested_input_misaligns_columns",
+        }
+    }
+    /// application order
+    const ALL: [Emu; 12] = [
+        Emu::NestedStreamingOrIndexJoinYieldsNoRows,
+        Emu::NestedJoinRunsAsInner,
+        Emu::NestedJoinInputFiltersIgnored,
+        Emu::ReorderDropsConditions,
+        Emu::PushdownMisroutesIsNull,
+        Emu::HashJoinIgnoresNonKeyOn,
+        Emu::InljSpecialKeyNeverMatches,
+        Emu::InljRightAsInner,
+        Emu::InljIgnoresWhere,
+        Emu::OuterJoinWhereActsAsOn,
+        Emu::UnmatchedRightRowsResolveColumnsByBareName,
+        Emu::RightJoinOverEmptyNestedInputMisalignsColumns,
+    ];
+}
+
+fn atom_trefs(a: &Atom) -> BTreeSet<usize> {
+    let mut r = vec![];
+    a.refs(&mut r);
+    r.iter().map(|c| c.t).collect()
+}
+
+/// table references that the optimizer's `collect_expr_tables` sees in this atom (IS NULL contributes none)
+fn binop_trefs(a: &Atom, out: &mut BTreeSet<usize>) {
+    match a {
+        Atom::IsNull(..) => {}
+        Atom::Or(x, y) => {
+            binop_trefs(x, out);
+            binop_trefs(y, out);
+        }
+        other => out.extend(atom_trefs(other)),
+    }
+}
+
+/// join operators of the plan in pre-order (top join first)
+fn plan_join_ops(plan: &str) -> Vec<&'static str> {
+    let mut v = vec![];
+    for line in plan.lines() {
+        let l = line.trim();
+        for (pat, name) in [("-> IndexNestedLoopJoin", "IndexNestedLoopJoin"), ("-> NestedLoopJoin", "NestedLoopJoin"), ("-> GraceHashJoin", "GraceHashJoin"), ("-> StreamingHashJoin", "StreamingHashJoin")] {
+            if l.starts_with(pat) {
+                v.push(name);
+                break;
+            }
+        }
+    }
+    v
+}
+
+fn never_true(q: &JQ, spec: &Spec, t: usize) -> Atom {
+    // payload values are >= 100 and never NULL
+    let pc = spec.tabs[q.trefs[t].tab].cols.iter().find(|c| c.kind == CK::Payload).unwrap().name.clone();
+    Atom::CmpLit(CRef { t, col: pc }, BinOp::Lt, V::Int(-1))
+}
+
+/// WHERE atoms that predicate pushdown sees (equalities of a comma/cross join were extracted into the join before)
+fn pushdown_where<'a>(q: &'a JQ) -> Vec<&'a Atom> {
+    let extracted = q.comma || q.steps.iter().all(|s| s.kind == JoinKind::Cross);
+    q.where_.iter().filter(|a| !(extracted && matches!(a, Atom::Equi(..)))).collect()
+}
+
+/// which emulations can apply to this query given the observed plan (two tables, or three in a JOIN chain)
+fn applicable_emus(q: &JQ, spec: &Spec, plan: &str) -> Vec<Emu> {
+    let ops = plan_join_ops(plan);
+    let n = q.trefs.len();
+    let mut v = vec![];
+    if n == 3 && !q.comma && ops.len() == 2 {
+        let (top_op, child_op) = (ops[0], ops[1]);
+        let top = &q.steps[1];
+        if matches!(child_op, "StreamingHashJoin" | "IndexNestedLoopJoin") {
+            v.push(Emu::NestedStreamingOrIndexJoinYieldsNoRows);
+        } else {
+            v.push(Emu::NestedJoinRunsAsInner);
+        }
+        let mut bt = BTreeSet::new();
+        for a in q.where_.iter() {
+            binop_trefs(a, &mut bt);
+        }
+        // join reordering (inner/cross chains only) may move any filtered table into the nested join
+        let reorderable = q.steps.iter().all(|s| matches!(s.kind, JoinKind::Inner | JoinKind::Cross));
+        if !bt.is_empty() && (!bt.contains(&2) || (reorderable && bt.len() == 1)) {
+            v.push(Emu::NestedJoinInputFiltersIgnored);
+        }
+        if matches!(top_op, "GraceHashJoin" | "StreamingHashJoin") && top.on.iter().any(|a| matches!(a, Atom::Equi(..))) && top.on.iter().any(|a| !matches!(a, Atom::Equi(..))) {
+            v.push(Emu::HashJoinIgnoresNonKeyOn);
+        }
+        if matches!(top.kind, JoinKind::Left | JoinKind::Right | JoinKind::Full) && !q.where_.is_empty() && top_op != "IndexNestedLoopJoin" {
+            v.push(Emu::OuterJoinWhereActsAsOn);
+        }
+        if matches!(top.kind, JoinKind::Right | JoinKind::Full) && top_op != "IndexNestedLoopJoin" && q.items.is_some() {
+            v.push(Emu::RightJoinOverEmptyNestedInputMisalignsColumns);
+        }
+        return v;
+    }
+    if n != 2 || ops.len() != 1 {
+        return v;
+    }
+    let kind = if q.comma { JoinKind::Cross } else { q.steps[0].kind };
+    let inlj = ops[0] == "IndexNestedLoopJoin";
+    let hash = matches!(ops[0], "GraceHashJoin" | "StreamingHashJoin");
+    let has_cond = q.steps.iter().any(|s| !s.on.is_empty()) || q.where_.iter().any(|a| matches!(a, Atom::Equi(..)));
+    if matches!(kind, JoinKind::Inner | JoinKind::Cross) && plan.contains("NestedLoopJoin (Cross)") && has_cond {
+        v.push(Emu::ReorderDropsConditions);
+    }
+    {
+        let w = pushdown_where(q);
+        let mut bt = BTreeSet::new();
+        for a in &w {
+            binop_trefs(a, &mut bt);
+        }
+        if bt.len() == 1 && !inlj {
+            let t = *bt.iter().next().unwrap();
+            if w.iter().any(|a| matches!(a, Atom::IsNull(c, _) if c.t != t)) {
+                v.push(Emu::PushdownMisroutesIsNull);
+            }
+        }
+    }
+    if hash && !q.comma && q.steps[0].on.iter().any(|a| matches!(a, Atom::Equi(..))) && q.steps[0].on.iter().any(|a| !matches!(a, Atom::Equi(..))) {
+        v.push(Emu::HashJoinIgnoresNonKeyOn);
+    }
+    if inlj {
+        let special_equi = q.steps.iter().flat_map(|s| s.on.iter()).chain(q.where_.iter()).any(|a| matches!(a, Atom::Equi(l, _, _) if matches!(q.col_kind(spec, l), CK::Date | CK::Bool | CK::Ts)));
+        if special_equi {
+            v.push(Emu::InljSpecialKeyNeverMatches);
+        }
+        if kind == JoinKind::Right {
+            v.push(Emu::InljRightAsInner);
+        }
+        if q.where_.iter().any(|a| !matches!(a, Atom::Equi(..))) {
+            v.push(Emu::InljIgnoresWhere);
+        }
+    }
+    if matches!(kind, JoinKind::Left | JoinKind::Right | JoinKind::Full) && !q.where_.is_empty() && !inlj {
+        v.push(Emu::OuterJoinWhereActsAsOn);
+    }
+    if matches!(kind, JoinKind::Right | JoinKind::Full) && !inlj {
+        if let Some(items) = &q.items {
+            let left_cols: BTreeSet<&str> = spec.tabs[q.trefs[0].tab].cols.iter().map(|c| c.name.as_str()).collect();
+            if items.iter().any(|c| c.t == 1 && left_cols.contains(c.col.as_str())) {
+                v.push(Emu::UnmatchedRightRowsResolveColumnsByBareName);
+            }
+        }
+    }
+    v
+}
+
+/// the query the defective engine effectively evaluates (row-level patches are applied by `emulated_rows`)
+fn emulate(q: &JQ, spec: &Spec, set: &[Emu]) -> JQ {
+    let mut e = q.clone();
+    let top = e.steps.len().saturating_sub(1);
+    for emu in Emu::ALL.iter().filter(|x| set.contains(x)) {
+        match emu {
+            Emu::NestedStreamingOrIndexJoinYieldsNoRows => {
+                let never = never_true(&e, spec, 1);
+                e.steps[0] = JStep { kind: JoinKind::Inner, on: vec![never] };
+            }
+            Emu::NestedJoinRunsAsInner => {
+                if e.steps[0].kind != JoinKind::Cross {
+                    e.steps[0].kind = JoinKind::Inner;
+                }
+            }
+            Emu::NestedJoinInputFiltersIgnored => {
+                e.where_.clear();
+            }
+            Emu::ReorderDropsConditions => {
+                if e.comma {
+                    e.where_.retain(|a| !matches!(a, Atom::Equi(..)));
+                } else {
+                    let was_cross = e.steps[0].kind == JoinKind::Cross;
+                    e.steps[0] = JStep { kind: JoinKind::Cross, on: vec![] };
+                    if was_cross {
+                        // equalities in WHERE had been extracted into the join condition, which is then lost
+                        e.where_.retain(|a| !matches!(a, Atom::Equi(..)));
+                    }
+                }
+            }
+            Emu::PushdownMisroutesIsNull => {
+                let mut bt = BTreeSet::new();
+                for a in pushdown_where(&e) {
+                    binop_trefs(a, &mut bt);
+                }
+                if bt.len() == 1 {
+                    let t = *bt.iter().next().unwrap();
+                    let mut out = vec![];
+                    for a in e.where_.clone() {
+                        match &a {
+                            // evaluated without its column: IS NULL holds, IS NOT NULL does not
+                            Atom::IsNull(c, false) if c.t != t => {}
+                            Atom::IsNull(c, true) if c.t != t => out.push(never_true(&e, spec, c.t)),
+                            _ => out.push(a),
+                        }
+                    }
+                    e.where_ = out;
+                }
+            }
+            Emu::HashJoinIgnoresNonKeyOn => {
+                if !e.comma && e.steps[top].on.iter().any(|a| matches!(a, Atom::Equi(..))) {
+                    e.steps[top].on.retain(|a| matches!(a, Atom::Equi(..)));
+                }
+            }
+            Emu::InljSpecialKeyNeverMatches => {
+                let never = never_true(&e, spec, 1);
+                if e.comma || e.steps[0].kind == JoinKind::Cross {
+                    e.where_.push(never);
+                } else {
+                    e.steps[0].on.push(never);
+                }
+            }
+            Emu::InljRightAsInner => {
+                if !e.comma && e.steps[0].kind == JoinKind::Right {
+                    e.steps[0].kind = JoinKind::Inner;
+                }
+            }
+            Emu::InljIgnoresWhere => {
+                e.where_.retain(|a| matches!(a, Atom::Equi(..)));
+            }
+            Emu::OuterJoinWhereActsAsOn => {
+                if !e.comma && e.steps[top].kind != JoinKind::Cross {
+                    let w = std::mem::take(&mut e.where_);
+                    e.steps[top].on.extend(w);
+                }
+            }
+            Emu::UnmatchedRightRowsResolveColumnsByBareName | Emu::RightJoinOverEmptyNestedInputMisalignsColumns => {}
+        }
+    }
+    e
+}
+
+/// rows the defective engine is predicted to return
+fn emulated_rows(q: &JQ, spec: &Spec, set: &[Emu], plan: &str) -> Option<Vec<Row>> {
+    let e = emulate(q, spec, set);
+    if set.contains(&Emu::RightJoinOverEmptyNestedInputMisalignsColumns) {
+        if e.trefs.len() != 3 || e.comma {
+            return None;
+        }
+        // the nested input as the engine computes it (no filters) must be empty for the defect to show
+        let prefix = JQ { trefs: e.trefs[..2].to_vec(), comma: false, steps: e.steps[..1].to_vec(), where_: vec![], items: Some(vec![CRef { t: 0, col: spec.tabs[e.trefs[0].tab].cols[0].name.clone() }]), qualify: true };
+        if !model_of(&prefix, spec).ok()?.0.is_empty() {
+            return None;
+        }
+        let ops = plan_join_ops(plan);
+        let child_has_map = matches!(ops.get(1).copied(), Some("NestedLoopJoin") | Some("GraceHashJoin"));
+        // column lookup by bare name, first hit: nested left layout (if any), then the right table at offset 0
+        let mut layout: Vec<(String, usize)> = vec![];
+        if child_has_map {
+            let mut off = 0;
+            for t in 0..2 {
+                for (i, c) in spec.tabs[e.trefs[t].tab].cols.iter().enumerate() {
+                    layout.push((c.name.clone(), off + i));
+                }
+                off += spec.tabs[e.trefs[t].tab].cols.len();
+            }
+        }
+        for (i, c) in spec.tabs[e.trefs[2].tab].cols.iter().enumerate() {
+            layout.push((c.name.clone(), i));
+        }
+        let items = e.items.clone()?;
+        let rows = spec.tabs[e.trefs[2].tab]
+            .rows
+            .iter()
+            .map(|r| items.iter().map(|it| r.get(layout.iter().find(|(n, _)| *n == it.col).map(|x| x.1).unwrap_or(0)).cloned().unwrap_or(V::Null)).collect::<Row>())
+            .collect();
+        return Some(rows);
+    }
+    if !set.contains(&Emu::UnmatchedRightRowsResolveColumnsByBareName) {
+        return model_of(&e, spec).ok().map(|x| x.0);
+    }
+    // mark NULL-padded (unmatched right) rows with a never-NULL left column, patch them, drop the marker
+    let items = e.items.clone()?;
+    let mut e2 = e.clone();
+    e2.qualify = true;
+    let pc = spec.tabs[e.trefs[0].tab].cols.iter().find(|c| c.kind == CK::Payload)?.name.clone();
+    e2.items.as_mut()?.push(CRef { t: 0, col: pc });
+    let (rows, _) = model_of(&e2, spec).ok()?;
+    let left_cols: BTreeSet<&str> = spec.tabs[e.trefs[0].tab].cols.iter().map(|c| c.name.as_str()).collect();
+    Some(
+        rows.into_iter()
+            .map(|mut r| {
+                let marker = r.pop().unwrap();
+                if marker.is_null() {
+                    for (i, it) in items.iter().enumerate() {
+                        if it.t == 1 && left_cols.contains(it.col.as_str()) {
+                            r[i] = V::Null;
+                        }
+                    }
+                }
+                r
+            })
+            .collect(),
+    )
+}
+
+/// smallest set of applicable emulations under which the model reproduces `got` exactly
+fn explain(q: &JQ, spec: &Spec, plan: &str, got: &[Row]) -> Option<Vec<Emu>> {
+    let app = applicable_emus(q, spec, plan);
+    if app.is_empty() {
+        return None;
+    }
+    let n = app.len();
+    let mut subsets: Vec<Vec<Emu>> = vec![];
+    for mask in 1u32..(1 << n) {
+        subsets.push((0..n).filter(|i| mask & (1 << i) != 0).map(|i| app[i]).collect());
+    }
+    subsets.sort_by_key(|s| (s.len(), s.clone()));
+    for s in subsets {
+        if s.len() > 3 {
+            break;
+        }
+        if let Some(rows) = emulated_rows(q, spec, &s, plan) {
+            if bag_equal(&rows, got) {
+                return Some(s);
+            }
+        }
+    }
+    None
+}
+
+fn columns_referenced(q: &JQ) -> Vec<CRef> {
+    let mut r = vec![];
+    for st in &q.steps {
+        for a in &st.on {
+            a.refs(&mut r);
+        }
+    }
+    for a in &q.where_ {
+        a.refs(&mut r);
+    }
+    r
+}
+
+/// rows of each table restricted by `keep(tab index, row)`
+fn filter_rows(spec: &Spec, keep: &mut dyn FnMut(usize, &Tab, &Row) -> bool) -> Spec {
+    let mut s = spec.clone();
+    for (ti, t) in s.tabs.iter_mut().enumerate() {
+        let tt = spec.tabs[ti].clone();
+        t.rows.retain(|r| keep(ti, &tt, r));
+    }
+    s
+}
+
+/// what one worker reports for one database (merged into the Ctx by the main thread, in database order)
+#[derive(Default)]
+struct Report {
+    evals: u64,
+    counters: Vec<(String, u64)>,
+    nontrivial: Vec<u64>,
+    samples: Vec<J>,
+    /// (assertion, signature, detail)
+    violations: Vec<(String, String, J)>,
+    by_algo: Vec<(String, bool)>,
+    by_kind: Vec<(String, bool)>,
+    features: Vec<String>,
+}
+
+impl Report {
+    fn count(&mut self, k: &str, n: u64) {
+        self.counters.push((k.to_string(), n));
+    }
+}
+
+/// structural shrink on the same database: greedy over `shrink_candidates` while the same sub-assertion fails
+fn shrink_query(db: &mut Db, spec: &Spec, q: &JQ, f0: &Fail, budgets: &[usize], mut left: usize, keep: &mut dyn FnMut(&mut Db, &JQ, &Fail) -> bool) -> (JQ, Fail) {
+    let mut cur = q.clone();
+    let mut cur_f = f0.clone();
+    'outer: loop {
+        for cand in cur.shrink_candidates(spec) {
+            if left == 0 {
+                break 'outer;
+            }
+            if cand.rank() >= cur.rank() {
+                continue;
+            }
+            left -= 1;
+            if let Some(f) = still_fails(db, &cand, spec, f0, budgets) {
+                if keep(db, &cand, &f) {
+                    cur = cand;
+                    cur_f = f;
+                    continue 'outer;
+                }
+            }
+        }
+        break;
+    }
+    (cur, cur_f)
+}
+
+fn used_setup(spec: &Spec, q: &JQ) -> Vec<String> {
+    let used: BTreeSet<usize> = q.trefs.iter().map(|t| t.tab).collect();
+    spec.tabs.iter().enumerate().filter(|(i, _)| used.contains(i)).flat_map(|(_, t)| t.setup_sql()).collect()
+}
+
+struct Worker<'s> {
+    scratch: &'s Scratch,
+    id: usize,
+    /// signatures for which some worker has already produced a minimised witness
+    seen_sigs: &'s std::sync::Mutex<BTreeSet<String>>,
+    fresh_dbs: u64,
+    start: std::time::Instant,
+    /// after this many seconds only bounded classification work is done (no row minimisation)
+    soft_deadline_s: f64,
+}
+
+impl<'s> Worker<'s> {
+    fn fresh(&mut self, spec: &Spec, tag: &str) -> Result<Db, String> {
+        self.fresh_dbs += 1;
+        build_db(self.scratch, spec, &format!("w{}-{}", self.id, tag))
+    }
+
+    /// SELECT * over a join returns rows without columns (right cardinality): reported under its own signature
+    fn star_defect(&mut self, rep: &mut Report, db: &mut Db, spec: &Spec, q: &JQ, f: &Fail, budgets: &[usize]) -> bool {
+        if q.items.is_some() || f.assertion != "width" {
+            return false;
+        }
+        let (got, want) = match (&f.got, model_of(q, spec)) {
+            (Some(g), Ok((w, _))) => (g, w),
+            _ => return false,
+        };
+        if got.len() != want.len() || !got.iter().all(|r| r.is_empty()) {
+            return false;
+        }
+        let sig = "C17/sql/width/defect:select_star_over_join_returns_zero_columns".to_string();
+        let first = self.seen_sigs.lock().unwrap().insert(sig.clone());
+        let mut detail = json!({"sql": q.sql(spec), "fail": f.detail});
+        if first {
+            let (small, sf) = shrink_query(db, spec, q, f, budgets, 60, &mut |_d, c, cf| c.items.is_none() && cf.got.as_ref().map(|g| g.iter().all(|r| r.is_empty())).unwrap_or(false));
+            detail = json!({"sql": q.sql(spec), "fail": f.detail, "minimal_sql": small.sql(spec), "minimal_setup": used_setup(spec, &small), "minimal_fail": sf.detail});
+        }
+        rep.count("sql_failures_explained_by_emulation", 1);
+        rep.violations.push(("width".into(), sig, detail));
+        true
+    }
+
+    /// star defect or exact emulation on (q, spec) as they stand; true if reported
+    fn reclassify(&mut self, rep: &mut Report, db: &mut Db, spec: &Spec, q: &JQ, f: &Fail, budgets: &[usize]) -> bool {
+        if self.star_defect(rep, db, spec, q, f, budgets) {
+            return true;
+        }
+        if f.assertion != "bag" {
+            return false;
+        }
+        if let (Some(got), Some(plan)) = (&f.got, db.explain(&q.sql(spec))) {
+            if let Some(set) = explain(q, spec, &plan, got) {
+                self.report_explained(rep, db, spec, q, &plan, f, &set, budgets);
+                return true;
+            }
+        }
+        false
+    }
+
+    fn handle_failure(&mut self, rep: &mut Report, db: &mut Db, spec: &Spec, q: &JQ, plan: Option<&str>, f0: Fail) {
+        let shrink_budgets: Vec<usize> = if f0.assertion == "budget_invariant" { BUDGETS.to_vec() } else { vec![BUDGETS[0]] };
+        // (1) SELECT * over a join: zero-width rows of the right cardinality
+        if self.star_defect(rep, db, spec, q, &f0, &shrink_budgets) {
+            return;
+        }
+        // (2) exact emulations on the query as generated
+        if let (Some(plan), Some(got)) = (plan, &f0.got) {
+            if f0.assertion == "bag" {
+                if let Some(set) = explain(q, spec, plan, got) {
+                    self.report_explained(rep, db, spec, q, plan, &f0, &set, &shrink_budgets);
+                    return;
+                }
+            }
+        }
+        // (3) structural shrink, then emulations on the minimal query
+        let (cur, mut cur_f) = shrink_query(db, spec, q, &f0, &shrink_budgets, 160, &mut |_, _, _| true);
+        if self.star_defect(rep, db, spec, &cur, &cur_f, &shrink_budgets) {
+            return;
+        }
+        let cur_plan = db.explain(&cur.sql(spec));
+        if let (Some(p), Some(got)) = (&cur_plan, &cur_f.got) {
+            if cur_f.assertion == "bag" {
+                if let Some(set) = explain(&cur, spec, p, got) {
+                    self.report_explained(rep, db, spec, &cur, p, &cur_f, &set, &shrink_budgets);
+                    return;
+                }
+            }
+        }
+        // (4) unexplained: feature signature of the minimal query, with targeted data reductions on fresh databases
+        let mut cur_spec = spec.clone();
+        let mut facts: Vec<&'static str> = vec![];
+        let used_tabs: BTreeSet<usize> = cur.trefs.iter().map(|t| t.tab).collect();
+        let refs = columns_referenced(&cur);
+        let ref_cols: Vec<(usize, usize)> = refs.iter().filter_map(|c| cur_spec.tabs[cur.trefs[c.t].tab].col(&c.col).map(|(i, _)| (cur.trefs[c.t].tab, i))).collect();
+        // 4a. secondary indexes
+        if cur_spec.tabs.iter().enumerate().any(|(i, t)| used_tabs.contains(&i) && !t.indexes.is_empty()) {
+            let mut cand = cur_spec.clone();
+            for t in cand.tabs.iter_mut() {
+                t.indexes.clear();
+            }
+            if let Some(f) = self.fresh(&cand, "red").ok().and_then(|mut d| still_fails(&mut d, &cur, &cand, &f0, &shrink_budgets)) {
+                cur_spec = cand;
+                cur_f = f;
+            }
+        }
+        // 4b. NULLs in referenced columns
+        if ref_cols.iter().any(|(t, c)| cur_spec.tabs[*t].rows.iter().any(|r| r[*c].is_null())) {
+            let cand = filter_rows(&cur_spec, &mut |ti, _t, r| !ref_cols.iter().any(|(t, c)| *t == ti && r[*c].is_null()));
+            match self.fresh(&cand, "red").ok().and_then(|mut d| still_fails(&mut d, &cur, &cand, &f0, &shrink_budgets)) {
+                Some(f) => {
+                    cur_spec = cand;
+                    cur_f = f;
+                }
+                None => facts.push("null_keys"),
+            }
+        }
+        // 4c. duplicate values in referenced columns (keep the first row of every distinct referenced tuple)
+        {
+            let mut seen: BTreeSet<(usize, String)> = BTreeSet::new();
+            let mut any_dup = false;
+            let cand = filter_rows(&cur_spec, &mut |ti, _t, r| {
+                let cols: Vec<usize> = ref_cols.iter().filter(|(t, _)| *t == ti).map(|(_, c)| *c).collect();
+                if cols.is_empty() {
+                    return true;
+                }
+                let key: Row = cols.iter().map(|c| r[*c].clone()).collect();
+                if key.iter().any(|v| v.is_null()) {
+                    return true;
+                }
+                let fresh = seen.insert((ti, row_key(&key, false)));
+                if !fresh {
+                    any_dup = true;
+                }
+                fresh
+            });
+            if any_dup {
+                match self.fresh(&cand, "red").ok().and_then(|mut d| still_fails(&mut d, &cur, &cand, &f0, &shrink_budgets)) {
+                    Some(f) => {
+                        cur_spec = cand;
+                        cur_f = f;
+                    }
+                    None => facts.push("dup_keys"),
+                }
+            }
+        }
+        let mut feats = cur.features(&cur_spec);
+        if cur_spec.tabs.iter().all(|t| t.indexes.is_empty()) {
+            feats.retain(|f| !f.starts_with("idx:sec"));
+        }
+        // the reduced data may leave a single established defect: classify again
+        if let Ok(mut d) = self.fresh(&cur_spec, "plan") {
+            if self.reclassify(rep, &mut d, &cur_spec, &cur, &cur_f, &shrink_budgets) {
+                return;
+            }
+        }
+        let plan2 = self.fresh(&cur_spec, "plan").ok().and_then(|mut d| d.explain(&cur.sql(&cur_spec)));
+        let algos: BTreeSet<&str> = plan2.as_deref().map(plan_algos).unwrap_or_default().into_iter().collect();
+        let plan_tag = if algos.is_empty() { "?".to_string() } else { algos.into_iter().collect::<Vec<_>>().join("+") };
+        let cause = if cur_f.cause.is_empty() { String::new() } else { format!("{}/", cur_f.cause) };
+        let arity = if cur.trefs.len() == 2 { "two_way" } else { "multiway" };
+        let mut sig = format!("C17/sql/{}/unexplained/{}{}/{}/{}/plan={}", f0.assertion, cause, arity, cur.kinds_tag(), feats.into_iter().collect::<Vec<_>>().join("+"), plan_tag);
+        for f in &facts {
+            sig.push('/');
+            sig.push_str(f);
+        }
+        let first = self.seen_sigs.lock().unwrap().insert(sig.clone());
+        // for the first witness of a signature: delete rows (halves, then single rows; fresh database each)
+        if first && self.start.elapsed().as_secs_f64() < self.soft_deadline_s {
+            let mut budget = 16usize;
+            let mut progress = true;
+            while progress && budget > 0 {
+                progress = false;
+                for ti in used_tabs.iter().copied().collect::<Vec<_>>() {
+                    // halves
+                    loop {
+                        let n = cur_spec.tabs[ti].rows.len();
+                        if n < 4 || budget == 0 {
+                            break;
+                        }
+                        let mut adopted = false;
+                        for half in 0..2 {
+                            let mut cand = cur_spec.clone();
+                            if half == 0 {
+                                cand.tabs[ti].rows.truncate(n / 2);
+                            } else {
+                                cand.tabs[ti].rows.drain(..n / 2);
+                            }
+                            budget = budget.saturating_sub(1);
+                            if let Some(f) = self.fresh(&cand, "red").ok().and_then(|mut d| still_fails(&mut d, &cur, &cand, &f0, &shrink_budgets)) {
+                                cur_spec = cand;
+                                cur_f = f;
+                                adopted = true;
+                                progress = true;
+                                break;
+                            }
+                        }
+                        if !adopted {
+                            break;
+                        }
+                    }
+                    let mut ri = 0;
+                    while ri < cur_spec.tabs[ti].rows.len() && budget > 0 && cur_spec.tabs[ti].rows.len() <= 6 {
+                        let mut cand = cur_spec.clone();
+                        cand.tabs[ti].rows.remove(ri);
+                        budget -= 1;
+                        match self.fresh(&cand, "red").ok().and_then(|mut d| still_fails(&mut d, &cur, &cand, &f0, &shrink_budgets)) {
+                            Some(f) => {
+                                cur_spec = cand;
+                                cur_f = f;
+                                progress = true;
+                            }
+                            None => ri += 1,
+                        }
+                    }
+                }
+            }
+        }
+        if first {
+            if let Ok(mut d) = self.fresh(&cur_spec, "plan") {
+                if self.reclassify(rep, &mut d, &cur_spec, &cur, &cur_f, &shrink_budgets) {
+                    return;
+                }
+            }
+        }
+        rep.count("sql_failures_unexplained", 1);
+        rep.violations.push((
+            f0.assertion.clone(),
+            sig,
+            json!({
+                "original_sql": q.sql(spec),
+                "original_fail": f0.detail,
+                "minimal_sql": cur.sql(&cur_spec),
+                "minimal_setup": used_setup(&cur_spec, &cur),
+                "minimal_fail": cur_f.detail,
+                "minimal_plan": plan2,
+                "data_facts": facts,
+                "rows_minimised": first,
+            }),
+        ));
+    }
+
+    #[allow(clippy::too_many_arguments)]
+    fn report_explained(&mut self, rep: &mut Report, db: &mut Db, spec: &Spec, q: &JQ, plan: &str, f: &Fail, set: &[Emu], budgets: &[usize]) {
+        rep.count("sql_failures_explained_by_emulation", 1);
+        let names: Vec<&str> = set.iter().map(|e| e.name()).collect();
+        // first time this worker sees this defect alone: attach a shrunk reproduction explained by the same defect
+        let mut minimal = J::Null;
+        if set.len() == 1 {
+            let sig = format!("C17/sql/bag/defect:{}", set[0].name());
+            if self.seen_sigs.lock().unwrap().insert(sig) {
+                let only = set.to_vec();
+                let (small, sf) = {
+                    // a candidate is kept only if it is still explained by exactly this defect
+                    let mut keep = |d: &mut Db, c: &JQ, cf: &Fail| -> bool {
+                        match (&cf.got, d.explain(&c.sql(spec))) {
+                            (Some(g), Some(p)) => explain(c, spec, &p, g).as_deref() == Some(&only[..]),
+                            _ => false,
+                        }
+                    };
+                    shrink_query(db, spec, q, f, budgets, 80, &mut keep)
+                };
+                let sp = db.explain(&small.sql(spec));
+                let same = match (&sp, &sf.got) {
+                    (Some(p), Some(g)) => explain(&small, spec, p, g).as_deref() == Some(&only[..]),
+                    _ => false,
+                };
+                if same {
+                    minimal = json!({"minimal_sql": small.sql(spec), "minimal_setup": used_setup(spec, &small), "minimal_fail": sf.detail, "minimal_plan": sp});
+                }
+            }
+        }
+        for e in set {
+            rep.violations.push((
+                "bag".into(),
+                format!("C17/sql/bag/defect:{}", e.name()),
+                json!({"sql": q.sql(spec), "setup": used_setup(spec, q), "plan": plan, "fail": f.detail, "explained_by_emulating": names, "emulated_sql": emulate(q, spec, set).sql(spec), "minimal": minimal}),
+            ));
+        }
+    }
+
+    fn run_database(&mut self, seed: u64, dbi: u64) -> Report {
+        let mut rep = Report::default();
+        let mut rng = Rng::derive(seed.wrapping_mul(0x1000193).wrapping_add(dbi), 17);
+        // strata: 1 in 7 databases carries a DATE / BOOLEAN / TIMESTAMP key column
+        let special = if dbi % 7 == 3 { Some(*rng.pick(&[CK::Date, CK::Bool, CK::Ts])) } else { None };
+        let ntabs = *rng.pick(&[2usize, 2, 2, 3, 3, 4]);
+        // 1 in 3 databases has no secondary index at all (pure hash / nested-loop paths)
+        let spec = gen_spec(&mut rng, ntabs, special, dbi % 3 != 0);
+        let mut db = match build_db(self.scratch, &spec, &format!("w{}-db", self.id)) {
+            Ok(d) => d,
+            Err(e) => {
+                rep.violations.push(("setup".into(), format!("C17/sql/setup/{}", err_class(&e)), json!({"error": e, "setup": spec.setup_sql()})));
+                return rep;
+            }
+        };
+        rep.count("sql_databases", 1);
+        let dh = spec.data_hash();
+        for _ in 0..10 {
+            let q = gen_query(&mut rng, &spec);
+            let sql = q.sql(&spec);
+            let (want, width) = match model_of(&q, &spec) {
+                Ok(x) => x,
+                Err(_) => {
+                    rep.count("sql_dropped_model_undecided", 1);
+                    continue;
+                }
+            };
+            rep.evals += 1;
+            rep.count("sql_query_executions", BUDGETS.len() as u64);
+            let plan = db.explain(&sql);
+            let algos = plan.as_deref().map(plan_algos).unwrap_or_default();
+            if plan.is_none() {
+                rep.count("sql_explain_unavailable", 1);
+            }
+            let verdict = judge(&mut db, &sql, &want, width, &BUDGETS);
+            let failed = verdict.is_some();
+            let aset: BTreeSet<&str> = algos.iter().copied().collect();
+            for al in &aset {
+                rep.by_algo.push((al.to_string(), failed));
+            }
+            for al in &algos {
+                rep.count(&format!("plan_operators:{}", al), 1);
+            }
+            rep.by_kind.push((q.kinds_tag(), failed));
+            rep.features.extend(q.features(&spec));
+            if special.is_some() {
+                rep.count("sql_special_key_stratum_queries", 1);
+            }
+            match verdict {
+                None => {
+                    rep.count("sql_held", 1);
+                    if !want.is_empty() {
+                        rep.nontrivial.push(fnv(format!("{}#{}", sql, dh).as_bytes()));
+                    }
+                    if rep.samples.is_empty() && !want.is_empty() {
+                        rep.samples.push(json!({"level": "sql", "sql": sql, "plan": plan, "model_rows": want.len(), "budgets": BUDGETS}));
+                    }
+                }
+                Some(f) => {
+                    rep.count("sql_failed", 1);
+                    rep.nontrivial.push(fnv(format!("{}#{}", sql, dh).as_bytes()));
+                    self.handle_failure(&mut rep, &mut db, &spec, &q, plan.as_deref(), f);
+                }
+            }
+        }
+        rep.count("sql_fresh_databases_for_shrinking", self.fresh_dbs);
+        self.fresh_dbs = 0;
+        rep
+    }
+}
+
+struct SqlAgg {
+    by_algo: BTreeMap<String, (u64, u64)>,
+    by_kind: BTreeMap<String, (u64, u64)>,
+    sigs: BTreeMap<String, u64>,
+    witnesses: BTreeMap<String, J>,
+    features: BTreeMap<String, u64>,
+}
+
+fn merge_report(ctx: &mut Ctx, agg: &mut SqlAgg, rep: Report) {
+    ctx.evals(rep.evals);
+    for (k, n) in rep.counters {
+        ctx.count(&k, n);
+    }
+    for h in rep.nontrivial {
+        ctx.nontrivial(h);
+    }
+    for s in rep.samples {
+        if ctx.samples.iter().filter(|x| x["level"] == "sql").count() < 3 {
+            ctx.sample(s);
+        }
+    }
+    for (k, failed) in rep.by_algo {
+        let e = agg.by_algo.entry(k).or_insert((0, 0));
+        e.0 += 1;
+        e.1 += failed as u64;
+    }
+    for (k, failed) in rep.by_kind {
+        let e = agg.by_kind.entry(k).or_insert((0, 0));
+        e.0 += 1;
+        e.1 += failed as u64;
+    }
+    for f in rep.features {
+        *agg.features.entry(f).or_insert(0) += 1;
+    }
+    for (assertion, sig, detail) in rep.violations {
+        *agg.sigs.entry(sig.clone()).or_insert(0) += 1;
+        if !agg.witnesses.contains_key(&sig) && agg.witnesses.len() < 80 {
+            agg.witnesses.insert(sig.clone(), detail.clone());
+        }
+        ctx.violation(&assertion, &sig, detail);
+    }
+}
+
+fn finish_sql(ctx: &mut Ctx, agg: SqlAgg) {
+    let pairs = |m: &BTreeMap<String, (u64, u64)>| m.iter().map(|(k, v)| (k.clone(), json!({"queries": v.0, "failed": v.1}))).collect::<BTreeMap<_, _>>();
+    ctx.extra.insert("sql_queries_by_join_algorithm".into(), json!(pairs(&agg.by_algo)));
+    ctx.extra.insert("sql_queries_by_join_kinds".into(), json!(pairs(&agg.by_kind)));
+    ctx.extra.insert("sql_queries_by_feature".into(), json!(agg.features));
+    ctx.extra.insert("sql_signatures".into(), json!(agg.sigs));
+    ctx.extra.insert("sql_first_witness_by_signature".into(), json!(agg.witnesses));
+}
+
+// ---------------------------------------------------------------------------------------------
+// component level
+// ---------------------------------------------------------------------------------------------
+
+mod comp {
+    use super::*;
+    use bumpalo::Bump;
+    use turdb::sql::ast::{JoinType, Statement};
+    use turdb::sql::builder::ExecutorBuilder;
+    use turdb::sql::context::ExecutionContext;
+    use turdb::sql::executor::{DynamicExecutor, Executor, MaterializedRowSource, TableScanExecutor};
+    use turdb::sql::parser::Parser;
+    use turdb::sql::state::StreamingHashJoinState;
+    use turdb::types::Value;
+
+    type Dx<'a> = DynamicExecutor<'a, MaterializedRowSource>;
+
+    #[derive(Clone, Debug, PartialEq)]
+    pub enum Ex {
+        Nlj,
+        GraceMem { p: usize },
+        GraceSpill { p: usize, budget: usize },
+        Stream { swapped: bool },
+    }
+
+    impl Ex {
+        pub fn class(&self, spilled: bool) -> String {
+            match self {
+                Ex::Nlj => "nlj".into(),
+                Ex::GraceMem { p } => format!("grace_mem_{}", if *p == 1 { "p1" } else { "pN" }),
+                Ex::GraceSpill { p, .. } => format!("{}_{}", if spilled { "grace_spill" } else { "grace_spilldir_nospill" }, if *p == 1 { "p1" } else { "pN" }),
+                Ex::Stream { swapped: false } => "stream".into(),
+                Ex::Stream { swapped: true } => "stream_swapped".into(),
+            }
+        }
+    }
+
+    #[derive(Clone, Debug)]
+    pub struct Input {
+        pub lcols: Vec<String>,
+        pub rcols: Vec<String>,
+        pub l: Vec<Row>,
+        pub r: Vec<Row>,
+        /// key column pairs (index into lcols, index into rcols)
+        pub keys: Vec<(usize, usize)>,
+        /// extra non-equi condition for the nested loop join: (left col, op, right col)
+        pub extra: Option<(usize, BinOp, usize)>,
+    }
+
+    pub fn jt(k: JoinKind) -> JoinType {
+        match k {
+            JoinKind::Inner => JoinType::Inner,
+            JoinKind::Left => JoinType::Left,
+            JoinKind::Right => JoinType::Right,
+            JoinKind::Full => JoinType::Full,
+            JoinKind::Cross => JoinType::Cross,
+        }
+    }
+
+    fn v_of(v: &Value) -> V {
+        match v {
+            Value::Null => V::Null,
+            Value::Int(i) => V::Int(*i),
+            Value::Float(f) => V::Float(*f),
+            Value::Text(s) => V::Text(s.to_string()),
+            Value::Blob(b) => V::Blob(b.to_vec()),
+            other => V::Other(format!("{:?}", other)),
+        }
+    }
+
+    fn scan<'a>(rows: &[Row], arena: &'a Bump) -> Dx<'a> {
+        let owned: Vec<Vec<turdb::OwnedValue>> = rows.iter().map(|r| r.iter().map(|v| v.to_owned_value()).collect()).collect();
+        DynamicExecutor::TableScan(TableScanExecutor::new(MaterializedRowSource::new(owned), arena))
+    }
+
+    pub fn cond_sql(inp: &Input, with_extra: bool) -> Option<String> {
+        let mut parts: Vec<String> = inp.keys.iter().map(|(a, b)| format!("l.{} = r.{}", inp.lcols[*a], inp.rcols[*b])).collect();
+        if with_extra {
+            if let Some((a, op, b)) = &inp.extra {
+                parts.push(format!("l.{} {} r.{}", inp.lcols[*a], op.sql(), inp.rcols[*b]));
+            }
+        }
+        if parts.is_empty() {
+            None
+        } else {
+            Some(parts.join(" AND "))
+        }
+    }
+
+    /// the model's nested-loop definition of the same join
+    pub fn expected(inp: &Input, kind: JoinKind, with_extra: bool) -> Result<Vec<Row>, MErr> {
+        let mut tables = BTreeMap::new();
+        tables.insert("l".to_string(), MTable { name: "l".into(), cols: inp.lcols.clone(), rows: inp.l.clone() });
+        tables.insert("r".to_string(), MTable { name: "r".into(), cols: inp.rcols.clone(), rows: inp.r.clone() });
+        let q = |t: &str, c: &str| E::Col { tbl: Some(t.to_string()), name: c.to_string() };
+        let mut atoms: Vec<E> = inp.keys.iter().map(|(a, b)| bin(BinOp::Eq, q("l", &inp.lcols[*a]), q("r", &inp.rcols[*b]))).collect();
+        if with_extra {
+            if let Some((a, op, b)) = &inp.extra {
+                atoms.push(bin(*op, q("l", &inp.lcols[*a]), q("r", &inp.rcols[*b])));
+            }
+        }
+        let on = atoms.into_iter().reduce(|x, y| bin(BinOp::And, x, y));
+        let s = Select { items: vec![Item::Star], from: vec![FromItem::Table { name: "l".into(), alias: None }], joins: vec![Join { kind, item: FromItem::Table { name: "r".into(), alias: None }, on }], ..Default::default() };
+        run_model(&Query::Select(s), &tables).map(|m| m.rows)
+    }
+
+    fn drain<'a>(ex: &mut Dx<'a>, spill_dir: Option<&Path>) -> Result<(Vec<Row>, usize), String> {
+        ex.open().map_err(|e| format!("open: {:#}", e))?;
+        // all partition writes happen in open(): count the spill files that exist now
+        let files = spill_dir.map(|d| std::fs::read_dir(d).map(|it| it.filter_map(|e| e.ok()).filter(|e| e.file_name().to_string_lossy().ends_with(".spill")).count()).unwrap_or(0)).unwrap_or(0);
+        let mut out = vec![];
+        let mut n = 0usize;
+        loop {
+            match ex.next().map_err(|e| format!("next: {:#}", e))? {
+                Some(row) => {
+                    out.push(row.values.iter().map(v_of).collect::<Row>());
+                    n += 1;
+                    if n > 200_000 {
+                        return Err("runaway: more than 200000 rows".into());
+                    }
+                }
+                None => break,
+            }
+        }
+        ex.close().map_err(|e| format!("close: {:#}", e))?;
+        Ok((out, files))
+    }
+
+    /// run one executor over the input; returns (rows, spill files observed)
+    pub fn run_exec(ex: &Ex, kind: JoinKind, inp: &Input, with_extra: bool, spill_root: &Path, qid: u64) -> Result<(Vec<Row>, usize), String> {
+        let r = catch(|| -> Result<(Vec<Row>, usize), String> {
+            let arena = Bump::new();
+            let ctx = ExecutionContext::new(&arena);
+            let builder = ExecutorBuilder::new(&ctx);
+            let left = scan(&inp.l, &arena);
+            let right = scan(&inp.r, &arena);
+            let (nl, nr) = (inp.lcols.len(), inp.rcols.len());
+            let lk: Vec<usize> = inp.keys.iter().map(|k| k.0).collect();
+            let rk: Vec<usize> = inp.keys.iter().map(|k| k.1).collect();
+            match ex {
+                Ex::Nlj => {
+                    let mut cmap: Vec<(String, usize)> = vec![];
+                    for (i, c) in inp.lcols.iter().enumerate() {
+                        cmap.push((format!("l.{}", c), i));
+                        cmap.push((c.clone(), i));
+                    }
+                    for (i, c) in inp.rcols.iter().enumerate() {
+                        cmap.push((format!("r.{}", c), nl + i));
+                        cmap.push((c.clone(), nl + i));
+                    }
+                    let cond = match cond_sql(inp, with_extra) {
+                        None => None,
+                        Some(c) => {
+                            let sql: &str = arena.alloc_str(&format!("SELECT 1 FROM l WHERE {}", c));
+                            let mut p = Parser::new(sql, &arena);
+                            match p.parse_statement() {
+                                Ok(Statement::Select(s)) => Some(s.where_clause.ok_or_else(|| "harness: no WHERE parsed".to_string())?),
+                                Ok(_) => return Err("harness: condition did not parse as SELECT".into()),
+                                Err(e) => return Err(format!("harness: condition parse error: {:#}", e)),
+                            }
+                        }
+                    };
+                    let st = builder.build_nested_loop_join(left, right, cond, &cmap, jt(kind), nl, nr);
+                    let mut dx = DynamicExecutor::NestedLoopJoin(st);
+                    drain(&mut dx, None)
+                }
+                Ex::GraceMem { p } => {
+                    let st = builder.build_grace_hash_join(left, right, lk, rk, *p, jt(kind), nl, nr, None, 0, qid);
+                    let mut dx = DynamicExecutor::GraceHashJoin(Box::new(st));
+                    drain(&mut dx, None)
+                }
+                Ex::GraceSpill { p, budget } => {
+                    let dir: PathBuf = spill_root.join(format!("q{}", qid));
+                    let _ = std::fs::remove_dir_all(&dir);
+                    let st = builder.build_grace_hash_join(left, right, lk, rk, *p, jt(kind), nl, nr, Some(dir.clone()), *budget, qid);
+                    let mut dx = DynamicExecutor::GraceHashJoin(Box::new(st));
+                    let r = drain(&mut dx, Some(&dir));
+                    drop(dx);
+                    let _ = std::fs::remove_dir_all(&dir);
+                    r
+                }
+                Ex::Stream { swapped } => {
+                    let (build, probe, bk, pk, bn, pn) = if *swapped { (right, left, rk, lk, nr, nl) } else { (left, right, lk, rk, nl, nr) };
+                    let st = StreamingHashJoinState {
+                        build: Box::new(build),
+                        probe: Box::new(probe),
+                        build_key_indices: bk.into_iter().collect(),
+                        probe_key_indices: pk.into_iter().collect(),
+                        arena: &arena,
+                        hash_table: Default::default(),
+                        build_rows: Vec::new(),
+                        current_probe_row: None,
+                        current_matches: Default::default(),
+                        current_match_idx: 0,
+                        join_type: jt(kind),
+                        probe_row_matched: false,
+                        build_matched: Vec::new(),
+                        emitting_unmatched_build: false,
+                        unmatched_build_idx: 0,
+                        build_col_count: bn,
+                        probe_col_count: pn,
+                        built: false,
+                        swapped: *swapped,
+                        memory_budget: None,
+                        last_reported_bytes: 0,
+                    };
+                    let mut dx = DynamicExecutor::StreamingHashJoin(st);
+                    drain(&mut dx, None)
+                }
+            }
+        });
+        match r {
+            Ok(x) => x,
+            Err(p) => Err(format!("PANIC: {}", p)),
+        }
+    }
+
+    pub fn gen_input(rng: &mut Rng, miri: bool) -> Input {
+        let dom = *rng.pick(&[2i64, 3, 5, 9]);
+        let max = if miri { 8 } else { 40 };
+        let mk = |rng: &mut Rng, side: char, base: i64| -> (Vec<String>, Vec<Row>) {
+            let cols = vec![format!("k{}", side), format!("s{}", side), format!("v{}", side)];
+            let n = match rng.below(12) {
+                0 => 0,
+                1 => 1,
+                _ => rng.usize(2, max),
+            };
+            let null_pm = *rng.pick(&[0u64, 150, 300]);
+            let rows = (0..n).map(|i| vec![gen_cell(rng, CK::IntKey, dom, null_pm), gen_cell(rng, CK::TextKey, dom, null_pm), V::Int(base + i as i64)]).collect();
+            (cols, rows)
+        };
+        let (lcols, l) = mk(rng, 'l', 100);
+        let (rcols, r) = mk(rng, 'r', 200);
+        let keys = match rng.below(10) {
+            0..=4 => vec![(0, 0)],
+            5..=7 => vec![(1, 1)],
+            _ => vec![(0, 0), (1, 1)],
+        };
+        let extra = if rng.chance(1, 2) { Some((2usize, *rng.pick(&[BinOp::Lt, BinOp::Ge, BinOp::Ne]), 2usize)) } else { None };
+        let mut inp = Input { lcols, rcols, l, r, keys, extra };
+        // payload comparison l.v < r.v is always true (100.. vs 200..): shift so it discriminates
+        if let Some((_, _, _)) = inp.extra {
+            for (i, row) in inp.r.iter_mut().enumerate() {
+                row[2] = V::Int(100 + ((i as i64 * 7) % 41));
+            }
+        }
+        inp
+    }
+
+    pub fn facts(inp: &Input, kind: JoinKind) -> Vec<&'static str> {
+        let mut f = vec![];
+        let key_of = |row: &Row, left: bool| -> Row { inp.keys.iter().map(|(a, b)| row[if left { *a } else { *b }].clone()).collect() };
+        let lk: Vec<Row> = inp.l.iter().map(|r| key_of(r, true)).collect();
+        let rk: Vec<Row> = inp.r.iter().map(|r| key_of(r, false)).collect();
+        if lk.iter().chain(rk.iter()).any(|k| k.iter().any(|v| v.is_null())) {
+            f.push("null_keys");
+        }
+        let dup = |ks: &Vec<Row>| {
+            let mut s = BTreeSet::new();
+            ks.iter().filter(|k| !k.iter().any(|v| v.is_null())).any(|k| !s.insert(row_key(k, false)))
+        };
+        if dup(&lk) || dup(&rk) {
+            f.push("dup_keys");
+        }
+        if inp.l.is_empty() {
+            f.push("empty_left");
+        }
+        if inp.r.is_empty() {
+            f.push("empty_right");
+        }
+        let nn = |k: &Row| !k.iter().any(|v| v.is_null());
+        let ls: BTreeSet<String> = lk.iter().filter(|k| nn(k)).map(|k| row_key(k, false)).collect();
+        let rs: BTreeSet<String> = rk.iter().filter(|k| nn(k)).map(|k| row_key(k, false)).collect();
+        if !inp.l.is_empty() && lk.iter().any(|k| !nn(k) || !rs.contains(&row_key(k, false))) && matches!(kind, JoinKind::Left | JoinKind::Full) {
+            f.push("unmatched_left");
+        }
+        if !inp.r.is_empty() && rk.iter().any(|k| !nn(k) || !ls.contains(&row_key(k, false))) && matches!(kind, JoinKind::Right | JoinKind::Full) {
+            f.push("unmatched_right");
+        }
+        if inp.keys.len() > 1 {
+            f.push("two_keys");
+        }
+        f
+    }
+
+    pub fn input_hash(inp: &Input) -> u64 {
+        let mut s = String::new();
+        for r in inp.l.iter() {
+            s.push_str(&row_key(r, false));
+            s.push('\n');
+        }
+        s.push_str("--\n");
+        for r in inp.r.iter() {
+            s.push_str(&row_key(r, false));
+            s.push('\n');
+        }
+        s.push_str(&format!("{:?}{:?}", inp.keys, inp.extra));
+        fnv(s.as_bytes())
+    }
+
+    pub fn input_json(inp: &Input) -> J {
+        json!({"left_cols": inp.lcols, "right_cols": inp.rcols, "left_rows": rows_json(&inp.l, 60), "right_rows": rows_json(&inp.r, 60), "key_pairs": inp.keys, "nlj_extra_condition": inp.extra.as_ref().map(|(a, op, b)| format!("l.{} {} r.{}", inp.lcols[*a], op.sql(), inp.rcols[*b]))})
+    }
+
+    /// delete rows one at a time while `fails` holds
+    pub fn shrink_rows(inp: &Input, fails: &mut dyn FnMut(&Input) -> bool, mut budget: usize) -> Input {
+        let mut cur = inp.clone();
+        let mut progress = true;
+        while progress && budget > 0 {
+            progress = false;
+            // halves first
+            for left in [true, false] {
+                let n = if left { cur.l.len() } else { cur.r.len() };
+                if n >= 4 && budget > 0 {
+                    for half in 0..2 {
+                        let mut c = cur.clone();
+                        let v = if left { &mut c.l } else { &mut c.r };
+                        if half == 0 {
+                            v.truncate(n / 2);
+                        } else {
+                            v.drain(..n / 2);
+                        }
+                        budget = budget.saturating_sub(1);
+                        if fails(&c) {
+                            cur = c;
+                            progress = true;
+                            break;
+                        }
+                    }
+                }
+            }
+            for left in [true, false] {
+                let mut i = 0;
+                while i < if left { cur.l.len() } else { cur.r.len() } {
+                    if budget == 0 {
+                        return cur;
+                    }
+                    let mut c = cur.clone();
+                    if left {
+                        c.l.remove(i);
+                    } else {
+                        c.r.remove(i);
+                    }
+                    budget -= 1;
+                    if fails(&c) {
+                        cur = c;
+                        progress = true;
+                    } else {
+                        i += 1;
+                    }
+                }
+            }
+        }
+        cur
+    }
+}
+
+fn outcome_tag(r: &Result<(Vec<Row>, usize), String>, want: &[Row]) -> Option<(String, String)> {
+    match r {
+        Ok((rows, _)) => {
+            if bag_equal(rows, want) {
+                None
+            } else {
+                Some(("bag".into(), String::new()))
+            }
+        }
+        Err(e) if is_panic(e) => Some(("no_panic".into(), panic_tag(e))),
+        Err(e) => Some(("no_error".into(), err_class(e))),
+    }
+}
+
+fn run_component_level(ctx: &mut Ctx, a: &Args, scratch: &Scratch, deadline_s: f64) {
+    use comp::*;
+    let quick = ctx.quick();
+    let miri = cfg!(miri);
+    let mut rng = Rng::derive(a.seed, 1700);
+    let spill_root = scratch.root.join("spill");
+    let ninputs = if miri { 12 } else if quick { 500 } else { 8000 };
+    let mut qid: u64 = 1;
+    let mut sigs: BTreeMap<String, u64> = BTreeMap::new();
+    let mut seen_sigs: BTreeSet<String> = BTreeSet::new();
+    let mut runs_by_class: BTreeMap<String, (u64, u64)> = BTreeMap::new();
+    for _ in 0..ninputs {
+        if ctx.elapsed() > deadline_s {
+            ctx.count("component_stopped_at_wall_budget", 1);
+            break;
+        }
+        let inp = gen_input(&mut rng, miri);
+        ctx.count("component_inputs", 1);
+        let ih = input_hash(&inp);
+        // executors for this input: every family once, parameters drawn per input
+        let mut execs: Vec<(Ex, bool)> = vec![(Ex::Nlj, false)];
+        if inp.extra.is_some() {
+            execs.push((Ex::Nlj, true));
+        }
+        execs.push((Ex::GraceMem { p: *rng.pick(&[1usize, 1, 2, 3, 7, 16]) }, false));
+        execs.push((Ex::Stream { swapped: false }, false));
+        execs.push((Ex::Stream { swapped: true }, false));
+        if !miri {
+            let p = *rng.pick(&[1usize, 1, 2, 2, 4, 8, 16]);
+            let budget = *rng.pick(&[256usize, 256, 512, 1024, 4096, 65536]);
+            execs.push((Ex::GraceSpill { p, budget }, false));
+        }
+        let kinds: Vec<JoinKind> = if miri { vec![*rng.pick(&[JoinKind::Inner, JoinKind::Left, JoinKind::Right, JoinKind::Full])] } else { vec![JoinKind::Inner, JoinKind::Left, JoinKind::Right, JoinKind::Full] };
+        for kind in kinds {
+            let want_eq = match expected(&inp, kind, false) {
+                Ok(w) => w,
+                Err(_) => {
+                    ctx.count("component_dropped_model_undecided", 1);
+                    continue;
+                }
+            };
+            let want_extra = expected(&inp, kind, true).ok();
+            let mut reference: Option<Vec<Row>> = None;
+            for (ex, with_extra) in &execs {
+                // the planner only builds a swapped streaming join for INNER; FULL is symmetric. LEFT/RIGHT under
+                // `swapped` have no documented meaning, so they are not driven.
+                if let Ex::Stream { swapped: true } = ex {
+                    if !matches!(kind, JoinKind::Inner | JoinKind::Full) {
+                        continue;
+                    }
+                }
+                let want: &Vec<Row> = if *with_extra {
+                    match &want_extra {
+                        Some(w) => w,
+                        None => continue,
+                    }
+                } else {
+                    &want_eq
+                };
+                qid += 1;
+                ctx.eval();
+                let res = run_exec(ex, kind, &inp, *with_extra, &spill_root, qid);
+                let spill_files = res.as_ref().map(|x| x.1).unwrap_or(0);
+                let class = format!("{}{}", ex.class(spill_files > 0), if *with_extra { "+nonequi" } else { "" });
+                if let Ex::GraceSpill { .. } = ex {
+                    if spill_files > 0 {
+                        ctx.count("component_spill_cases", 1);
+                        ctx.count("component_spill_files_written", spill_files as u64);
+                    } else {
+                        ctx.count("component_spilldir_cases_without_spill", 1);
+                    }
+                }
+                let fail = outcome_tag(&res, want);
+                {
+                    let e = runs_by_class.entry(format!("{}/{}", class, kind_name(kind))).or_insert((0, 0));
+                    e.0 += 1;
+                    if fail.is_some() {
+                        e.1 += 1;
+                    }
+                }
+                if !want.is_empty() || fail.is_some() {
+                    ctx.nontrivial(fnv(format!("{}/{}/{:?}/{}", class, kind_name(kind), ex, ih).as_bytes()));
+                }
+                if ctx.samples.len() < 6 && spill_files > 0 && fail.is_none() && !want.is_empty() {
+                    ctx.sample(json!({"level": "component", "executor": format!("{:?}", ex), "join": kind_name(kind), "spill_files": spill_files, "result_rows": want.len(), "input": input_json(&inp)}));
+                }
+                if *ex == Ex::Nlj && !*with_extra {
+                    if let Ok((rows, _)) = &res {
+                        reference = Some(rows.clone());
+                    }
+                }
+                // `bag` (or error / panic) against the model
+                if let Some((assertion, cause)) = fail {
+                    let mut fails = |c: &Input| -> bool {
+                        let w = match expected(c, kind, *with_extra) {
+                            Ok(w) => w,
+                            Err(_) => return false,
+                        };
+                        qid += 1;
+                        let r = run_exec(ex, kind, c, *with_extra, &spill_root, qid);
+                        // a spilling case must keep spilling to stay the same case
+                        if spill_files > 0 && r.as_ref().map(|x| x.1 == 0).unwrap_or(false) {
+                            return false;
+                        }
+                        outcome_tag(&r, &w) == Some((assertion.clone(), cause.clone()))
+                    };
+                    let small = shrink_rows(&inp, &mut fails, if matches!(ex, Ex::GraceSpill { .. }) { 120 } else { 400 });
+                    let fx = facts(&small, kind);
+                    let sig = format!("C17/component/{}/{}{}/{}/{}", assertion, if cause.is_empty() { String::new() } else { format!("{}/", cause) }, class, kind_name(kind), fx.join("+"));
+                    *sigs.entry(sig.clone()).or_insert(0) += 1;
+                    let first = seen_sigs.insert(sig.clone());
+                    qid += 1;
+                    let got_small = run_exec(ex, kind, &small, *with_extra, &spill_root, qid);
+                    let want_small = expected(&small, kind, *with_extra).unwrap_or_default();
+                    ctx.violation(
+                        &assertion,
+                        &sig,
+                        json!({
+                            "executor": format!("{:?}", ex),
+                            "join": kind_name(kind),
+                            "condition": cond_sql(&small, *with_extra),
+                            "minimal_input": input_json(&small),
+                            "minimal_got": match &got_small { Ok((r, f)) => json!({"rows": rows_json(r, 40), "spill_files": f}), Err(e) => json!({"error": e}) },
+                            "minimal_want": rows_json(&want_small, 40),
+                            "original_input": if first { input_json(&inp) } else { J::Null },
+                            "original_spill_files": spill_files,
+                        }),
+                    );
+                    continue;
+                }
+                // `algorithm_invariant`: same bag as the nested loop executor on the same equi condition
+                if !*with_extra && *ex != Ex::Nlj {
+                    if let (Some(refrows), Ok((rows, _))) = (&reference, &res) {
+                        if !bag_equal(rows, refrows) {
+                            let sig = format!("C17/component/algorithm_invariant/{}_vs_nlj/{}/{}", class, kind_name(kind), facts(&inp, kind).join("+"));
+                            *sigs.entry(sig.clone()).or_insert(0) += 1;
+                            ctx.violation("algorithm_invariant", &sig, json!({"executor": format!("{:?}", ex), "join": kind_name(kind), "input": input_json(&inp), "diff_vs_nlj": bag_diff(rows, refrows)}));
+                        }
+                    }
+                }
+            }
+        }
+    }
+    ctx.extra.insert("component_runs_by_executor_and_join".into(), json!(runs_by_class.iter().map(|(k, v)| (k.clone(), json!({"runs": v.0, "failed": v.1}))).collect::<BTreeMap<_, _>>()));
+    ctx.extra.insert("component_signatures".into(), json!(sigs));
+}
+
+pub fn run(a: &Args) -> i32 {
+    let mut ctx = Ctx::new(
+        "C17",
+        &a.tier,
+        a.seed,
+        "exploration",
+        "(a) SQL level: fresh database per case group with 2..4 tables (3..25 rows, optional integer primary key, integer and text join keys from small domains with duplicates and 0/15/30% NULLs, unique payload column, optional DATE/BOOLEAN/TIMESTAMP key stratum, optional secondary indexes on key columns); generated 2..4-way joins (INNER/LEFT/RIGHT/FULL OUTER/CROSS chains or comma joins with WHERE equalities; ON = equality on int/text/pk/special keys, non-equi comparisons, OR, extra conjuncts on one or both sides; WHERE atoms on any side; aliases, unqualified names, SELECT * or qualified columns from all sides, self joins); each query runs under PRAGMA join_memory_budget in {1024, 4096, 65536, 10485760}; `bag` = result bag equals the reference nested-loop evaluator, `budget_invariant` = same outcome and bag under all four budgets; EXPLAIN is recorded per query. Failing queries are shrunk (tables, conjuncts, WHERE atoms, select items, join kinds, aliases; then indexes / NULL keys / duplicate keys removed on fresh databases) and the signature is built from the minimal query. (b) component level: generated left/right inputs (0..40 rows, int/text keys, NULL and duplicate keys, one or two key columns) as MaterializedRowSource into DynamicExecutor::{NestedLoopJoin (equi and equi+non-equi condition), GraceHashJoin in memory (1..16 partitions), GraceHashJoin with spill_dir (budgets 256 B..64 KiB, 1..16 partitions; spill files counted after open()), StreamingHashJoin (build=left; swapped for INNER/FULL)} for INNER/LEFT/RIGHT/FULL; `bag` vs the model's nested-loop definition, `algorithm_invariant` vs the nested loop executor. distinct_nontrivial = distinct (query, data) / (executor, join kind, input) cases with a non-empty expected result or a failure",
+    );
+    let quick = ctx.quick();
+    let scratch = Scratch::new("c17");
+    if cfg!(miri) {
+        // no files / mmap under Miri: only the in-memory executors
+        run_component_level(&mut ctx, a, &scratch, 1e9);
+    } else {
+        // SQL level on worker threads (one scratch database each); the component level runs meanwhile on this thread
+        let (ndb, sql_deadline, comp_deadline): (u64, f64, f64) = if quick { (900, 40.0, 46.0) } else { (30000, 470.0, 520.0) };
+        let nworkers: usize = std::env::var("C17_WORKERS").ok().and_then(|x| x.parse().ok()).unwrap_or(4);
+        let next = std::sync::atomic::AtomicU64::new(0);
+        let start = std::time::Instant::now();
+        let seen_sigs: std::sync::Mutex<BTreeSet<String>> = std::sync::Mutex::new(BTreeSet::new());
+        let (tx, rx) = std::sync::mpsc::channel::<(u64, Report)>();
+        let seed = a.seed;
+        let mut agg = SqlAgg { by_algo: BTreeMap::new(), by_kind: BTreeMap::new(), sigs: BTreeMap::new(), witnesses: BTreeMap::new(), features: BTreeMap::new() };
+        std::thread::scope(|sc| {
+            for w in 0..nworkers {
+                let tx = tx.clone();
+                let next = &next;
+                let scratch = &scratch;
+                let seen_sigs = &seen_sigs;
+                sc.spawn(move || {
+                    let mut wk = Worker { scratch, id: w, seen_sigs, fresh_dbs: 0, start, soft_deadline_s: sql_deadline };
+                    loop {
+                        let i = next.fetch_add(1, std::sync::atomic::Ordering::SeqCst);
+                        if i >= ndb || start.elapsed().as_secs_f64() > sql_deadline {
+                            break;
+                        }
+                        let rep = wk.run_database(seed, i);
+                        if tx.send((i, rep)).is_err() {
+                            break;
+                        }
+                    }
+                });
+            }
+            drop(tx);
+            run_component_level(&mut ctx, a, &scratch, comp_deadline);
+            let mut reports: Vec<(u64, Report)> = rx.iter().collect();
+            reports.sort_by_key(|r| r.0);
+            if (reports.len() as u64) < ndb {
+                ctx.count("sql_stopped_at_wall_budget", 1);
+            }
+            for (_, rep) in reports {
+                merge_report(&mut ctx, &mut agg, rep);
+            }
+        });
+        finish_sql(&mut ctx, agg);
+    }
+    ctx.assumptions.push("text keys compare bytewise; join equality never matches NULL; DATE/TIMESTAMP values are inserted as ISO string literals and compared after rendering the returned day/microsecond counts back to ISO text; no ORDER BY/LIMIT/DISTINCT/aggregates are generated (other properties); a swapped StreamingHashJoin is only driven for INNER and FULL (the planner only builds it for INNER)".into());
+    ctx.finish()
 }
